@@ -1,17 +1,197 @@
-"""C02 — every task gets exactly its clients; clients are partitioned over workers (DESIGN.md section 4, C02)."""
+"""C02 — every task gets exactly its clients; clients are partitioned over workers (DESIGN.md section 4, C02).
+
+Roles are located by data flow (which value reaches which constructor parameter / subscript / call), decisions are taken on representative VALUES: the expressions and
+small functions extracted from the source are evaluated by sa.minieval (plus the local helpers _ev / _run below) — nothing of the repository is imported or called."""
 from __future__ import annotations
 
 import ast
+import math
 
+from sa import minieval as me
 from sa import source
-from sa.cfg import cfg_of, guards, facts, holds
-from sa.source import AnchorMissing, dotted, inline, inline_node, is_self_attr, last_attr, local_defs, params_of, short, u, walk_body
-from sa.sym import atoms_of, comparison, parse_expr, rat_equal
+from sa.cfg import guards
+from sa.classes import is_logging_stmt
+from sa.source import AnchorMissing, dotted, flat, inline, inline_node, is_self_attr, last_attr, local_defs, logical_parent, params_of, short, u, walk_body
+from sa.sym import UnknownAtom, bool_eval
 
 _D = "esrally/driver/driver.py"
 _T = "esrally/track/track.py"
 
 
+# ---- evaluation of extracted expressions / small functions on representative values ----------------------------------------------------------------------
+def _bind(target, value, env):
+    if isinstance(target, ast.Name):
+        env[target.id] = value
+    elif isinstance(target, (ast.Tuple, ast.List)) and isinstance(value, (list, tuple)) and len(value) == len(target.elts) and not any(isinstance(t, ast.Starred) for t in target.elts):
+        for t, v in zip(target.elts, value):
+            _bind(t, v, env)
+    else:
+        raise me.CannotEval(f"cannot bind `{u(target)}`")
+
+
+def _seq(v, what):
+    if isinstance(v, (list, tuple, set, frozenset, range, dict, str)):
+        return list(v)
+    raise me.CannotEval(f"{what}: not an iterable value")
+
+
+def _num(v, what):
+    if isinstance(v, bool) or not isinstance(v, (int, float)):
+        raise me.CannotEval(f"{what}: not a number")
+    return v
+
+
+class _Reduce(ast.NodeTransformer):
+    """What sa.minieval lacks for index arithmetic: min / max of several arguments or with `default=`, range / enumerate / zip (also `zip(*m)`), math.ceil / math.floor,
+    sum(xs, start), slices, and comprehensions whose element contains such calls. These sub-expressions are reduced (innermost first) to constants carrying the VALUE; the
+    rest of the expression is evaluated by minieval. CannotEval propagates (the caller reports 'not recognised', never a verdict)."""
+
+    def __init__(self, env):
+        self.env = env
+
+    def _k(self, value, at):
+        return ast.copy_location(ast.Constant(value=value), at)
+
+    def _comp(self, n):
+        out = []
+
+        def rec(i, env_):
+            if i == len(n.generators):
+                out.append(_ev(n.elt, env_))
+                return
+            g = n.generators[i]
+            if g.is_async:
+                raise me.CannotEval("async comprehension")
+            for v in _seq(_ev(g.iter, env_), short(g.iter, 40)):
+                env2 = dict(env_)
+                _bind(g.target, v, env2)
+                if all(_ev(c, env2) for c in g.ifs):
+                    rec(i + 1, env2)
+
+        rec(0, dict(self.env))
+        return self._k(set(out) if isinstance(n, ast.SetComp) else out, n)
+
+    visit_ListComp = visit_GeneratorExp = visit_SetComp = _comp
+
+    def _args(self, n):
+        vals = []
+        for a in n.args:
+            if isinstance(a, ast.Starred):
+                vals.extend(_seq(me.ev(a.value, self.env), short(a, 40)))
+            else:
+                vals.append(me.ev(a, self.env))
+        return vals
+
+    def visit_Call(self, n):
+        self.generic_visit(n)
+        d = dotted(n.func)
+        kw = {k.arg: k.value for k in n.keywords}
+        if None in kw:
+            return n
+        if d in ("min", "max") and set(kw) <= {"default"}:
+            vals = self._args(n)
+            single = len(n.args) == 1 and not isinstance(n.args[0], ast.Starred)
+            if single:
+                vals = _seq(vals[0], short(n, 40))
+                if not vals:
+                    if "default" in kw:
+                        return self._k(me.ev(kw["default"], self.env), n)
+                    raise me.CannotEval(f"{short(n, 40)}: empty sequence")
+            elif kw or not vals:
+                return n
+            return self._k((min if d == "min" else max)(_num(v, short(n, 40)) for v in vals), n)
+        if d == "range" and not kw and 1 <= len(n.args) <= 3:
+            vals = self._args(n)
+            if all(isinstance(v, int) and not isinstance(v, bool) for v in vals) and (len(vals) < 3 or vals[2] != 0):
+                r = range(*vals)
+                if len(r) > 10000:
+                    raise me.CannotEval("range too long")
+                return self._k(list(r), n)
+            raise me.CannotEval(f"{short(n, 40)}: non-integer bounds")
+        if d == "enumerate" and set(kw) <= {"start"} and 1 <= len(n.args) <= 2:
+            vals = self._args(n)
+            start = vals[1] if len(vals) == 2 else (me.ev(kw["start"], self.env) if kw else 0)
+            return self._k([(start + i, v) for i, v in enumerate(_seq(vals[0], short(n, 40)))], n)
+        if d == "zip" and set(kw) <= {"strict"}:
+            return self._k(list(zip(*[_seq(v, short(n, 40)) for v in self._args(n)])), n)
+        if d in ("math.ceil", "math.floor", "ceil", "floor") and len(n.args) == 1 and not kw:
+            return self._k((math.ceil if d.endswith("ceil") else math.floor)(_num(me.ev(n.args[0], self.env), short(n, 40))), n)
+        if d == "sum" and len(n.args) == 2 and not kw:
+            vals = self._args(n)
+            return self._k(sum((_num(v, short(n, 40)) for v in _seq(vals[0], short(n, 40))), _num(vals[1], short(n, 40))), n)
+        return n
+
+    def visit_Subscript(self, n):
+        self.generic_visit(n)
+        if isinstance(n.slice, ast.Slice):
+            v = me.ev(n.value, self.env)
+            if not isinstance(v, (list, tuple, str)):
+                raise me.CannotEval(f"{short(n, 40)}: slice of a non-sequence")
+            lo, hi, st = ((None if x is None else me.ev(x, self.env)) for x in (n.slice.lower, n.slice.upper, n.slice.step))
+            if any(x is not None and (isinstance(x, bool) or not isinstance(x, int)) for x in (lo, hi, st)) or st == 0:
+                raise me.CannotEval(f"{short(n, 40)}: slice bounds")
+            return self._k(v[lo:hi:st], n)
+        return n
+
+
+def _ev(expr, env):
+    """value of an extracted expression in `env` (sa.minieval + _Reduce)"""
+    return me.ev(_Reduce(env).visit(source.clone(expr)), env)
+
+
+class _Flow(Exception):
+    def __init__(self, kind, value=None):
+        super().__init__(kind)
+        self.kind, self.value = kind, value
+
+
+def _run(stmts, env, budget=None):
+    """Evaluate a small PURE statement list (assignments to locals, for / if, return, logging) in `env`; anything else raises CannotEval."""
+    budget = budget if budget is not None else [4000]
+    for st in stmts:
+        budget[0] -= 1
+        if budget[0] < 0:
+            raise me.CannotEval("step budget exhausted")
+        if isinstance(st, ast.Assign) and len(st.targets) == 1 and isinstance(st.targets[0], (ast.Name, ast.Tuple, ast.List)):
+            _bind(st.targets[0], _ev(st.value, env), env)
+        elif isinstance(st, ast.AugAssign) and isinstance(st.target, ast.Name):
+            env[st.target.id] = _ev(ast.BinOp(left=ast.Name(id=st.target.id, ctx=ast.Load()), op=st.op, right=st.value), env)
+        elif isinstance(st, ast.For) and not st.orelse:
+            for v in _seq(_ev(st.iter, env), short(st.iter, 40)):
+                _bind(st.target, v, env)
+                try:
+                    _run(st.body, env, budget)
+                except _Flow as f:
+                    if f.kind == "break":
+                        break
+                    if f.kind != "continue":
+                        raise
+        elif isinstance(st, ast.If):
+            _run(st.body if _ev(st.test, env) else st.orelse, env, budget)
+        elif isinstance(st, ast.Return):
+            raise _Flow("return", None if st.value is None else _ev(st.value, env))
+        elif isinstance(st, ast.Break):
+            raise _Flow("break")
+        elif isinstance(st, ast.Continue):
+            raise _Flow("continue")
+        elif isinstance(st, ast.Pass) or (isinstance(st, ast.Expr) and (isinstance(st.value, ast.Constant) or is_logging_stmt(st))):
+            pass
+        else:
+            raise me.CannotEval(f"statement `{short(st, 60)}`")
+
+
+def _call_value(func, env):
+    """value returned by the (pure) body of `func` evaluated in env"""
+    try:
+        _run(func.body, dict(env))
+    except _Flow as f:
+        if f.kind == "return":
+            return f.value
+        raise me.CannotEval(f"`{f.kind}` outside a loop")
+    return None
+
+
+# ---- roles of the allocation matrix builder ----------------------------------------------------------------------------------------------------------------
 def _builder(drv):
     for f in drv.functions():
         names = {last_attr(c.func) for c in source.calls_in(f)}
@@ -20,8 +200,245 @@ def _builder(drv):
     raise AnchorMissing("matrix builder (function constructing both JoinPoint and TaskAllocation)")
 
 
+def _is_fresh_list(e) -> bool:
+    return (isinstance(e, ast.List) and not e.elts) or (isinstance(e, ast.Call) and dotted(e.func) == "list" and not e.args and not e.keywords)
+
+
+def _range_bound(call):
+    """N for `range(N)` / `range(0, N)`, else None"""
+    if isinstance(call, ast.Call) and dotted(call.func) == "range" and not call.keywords:
+        if len(call.args) == 1:
+            return call.args[0]
+        if len(call.args) == 2 and source.is_const(call.args[0], 0):
+            return call.args[1]
+    return None
+
+
+def _matrix_alloc(b):
+    """(matrix name, row count expression, allocating statement, form) — `[x] * R` (form 'repeat') or `[<fresh list> for _ in range(R)]` (form 'comprehension');
+    of several candidates the one the builder returns is taken."""
+    cands = []
+    for n in walk_body(b):
+        if not (isinstance(n, ast.Assign) and len(n.targets) == 1 and isinstance(n.targets[0], ast.Name)):
+            continue
+        v = n.value
+        if isinstance(v, ast.BinOp) and isinstance(v.op, ast.Mult):
+            lst, cnt = (v.left, v.right) if isinstance(v.left, ast.List) else ((v.right, v.left) if isinstance(v.right, ast.List) else (None, None))
+            if lst is not None and len(lst.elts) == 1:
+                cands.append((n.targets[0].id, cnt, n, "repeat"))
+        elif isinstance(v, ast.ListComp) and len(v.generators) == 1 and not v.generators[0].ifs and _range_bound(v.generators[0].iter) is not None \
+                and (_is_fresh_list(v.elt) or isinstance(v.elt, (ast.List, ast.ListComp))):
+            cands.append((n.targets[0].id, _range_bound(v.generators[0].iter), n, "comprehension"))
+    returned = {r.value.id for r in walk_body(b) if isinstance(r, ast.Return) and isinstance(r.value, ast.Name)}
+    pref = [c for c in cands if c[0] in returned] or cands
+    if not pref:
+        raise AnchorMissing("matrix allocation in the builder (`[x] * <rows>` or `[[] for _ in range(<rows>)]`)")
+    return pref[0]
+
+
+# representative (first element-wide index s of a sub-task, its client count n, the element's client count e, row count R). e, R and n pairwise different in some case;
+# a sub-task wider than the matrix (n > R: capped parallel element) and offsets that are no multiples of n are included.
+_CASES = [(s, n, e, r) for e, r in ((4, 6), (2, 2), (3, 5)) for s in (0, 2, 5) for n in (1, 2, 3)]
+
+
+class _Alloc:
+    """The allocation matrix builder with its roles located by data flow:
+       L / elem      the loop over the schedule (a self attribute) and its element variable
+       matrix, rowcount, rows_texts   the matrix local, the expression of its row count, the texts that denote the row count
+       SL / sub      the loop over the sub-tasks of an element
+       tac / bd      the TaskAllocation(...) construction and its arguments by constructor POSITION (task, task-local index, element-wide index, total clients)
+       CL / loopvar  the range loop around it (one iteration per client of the sub-task)
+       svar          the running offset: the local advanced in the sub-task loop (outside the client loop) that the element-wide index is computed from"""
+
+    def __init__(self, drv):
+        self.drv = drv
+        b = self.b = _builder(drv)
+        self.defs = local_defs(b)
+        ta_cls = drv.cls("TaskAllocation")
+        ta_init = drv.methods(ta_cls).get("__init__")
+        if ta_init is None or len(params_of(ta_init)) < 5:
+            raise AnchorMissing("TaskAllocation.__init__(self, task, task-local index, element-wide index, total clients)")
+        self.ta_params = params_of(ta_init)[1:5]
+        L = None
+        for n in walk_body(b):
+            if isinstance(n, ast.For) and any(isinstance(x, ast.Call) and last_attr(x.func) == "TaskAllocation" for x in ast.walk(n)):
+                it, tg = n.iter, n.target
+                if isinstance(it, ast.Call) and dotted(it.func) == "enumerate" and len(it.args) == 1 and isinstance(tg, ast.Tuple) and len(tg.elts) == 2:
+                    it, tg = it.args[0], tg.elts[1]
+                if is_self_attr(it) and isinstance(tg, ast.Name):
+                    L, self.elem, self.sched_attr = n, tg.id, it.attr
+                    break
+        if L is None:
+            raise AnchorMissing("schedule loop (over a self attribute) around the TaskAllocation construction in the matrix builder")
+        self.L = L
+        self.matrix, self.rowcount, self.matrix_stmt, self.matrix_form = _matrix_alloc(b)
+        self.rc_text = inline(self.rowcount, self.defs)
+        self.rows_texts = {self.rc_text, f"len({self.matrix})"}
+        subloops = []
+        for n in ast.walk(L):
+            if isinstance(n, ast.For) and n is not L:
+                it, tg = n.iter, n.target
+                if isinstance(it, ast.Call) and dotted(it.func) == "enumerate" and len(it.args) == 1 and isinstance(tg, ast.Tuple) and len(tg.elts) == 2:
+                    it, tg = it.args[0], tg.elts[1]
+                if isinstance(it, ast.Call) and dotted(it.func) == "iter" and len(it.args) == 1:
+                    it = it.args[0]
+                if u(it) == self.elem and isinstance(tg, ast.Name):
+                    subloops.append((n, tg.id))
+        if not subloops:
+            raise AnchorMissing("loop over the sub-tasks of a schedule element")
+        self.SL, self.sub = subloops[0]
+        tac = [n for n in ast.walk(self.SL) if isinstance(n, ast.Call) and last_attr(n.func) == "TaskAllocation"]
+        if not tac:
+            raise AnchorMissing("TaskAllocation(...) in the sub-task loop")
+        self.tac = tac[0]
+        self.bd = source.bind_args(self.tac, ta_init)
+        self.CL = None
+        for a in source.ancestors(self.tac):
+            if a is self.SL:
+                break
+            if isinstance(a, ast.For) and isinstance(a.iter, ast.Call) and dotted(a.iter.func) == "range" and 1 <= len(a.iter.args) <= 3 and not a.iter.keywords and isinstance(a.target, ast.Name):
+                self.CL = a
+                break
+        if self.CL is None:
+            raise AnchorMissing("client loop (`for <i> in range(...)`) around the TaskAllocation construction")
+        self.loopvar = self.CL.target.id
+        # locals defined by ONE unconditional statement of the client loop's own block (`client_index = s + k`): inside the loop their value is that definition, whatever
+        # other loops of the builder re-use the name for
+        cl_assigned = [t.id for n in ast.walk(self.CL) if isinstance(n, (ast.Assign, ast.AugAssign, ast.For, ast.NamedExpr)) and n is not self.CL
+                       for t_ in (n.targets if isinstance(n, ast.Assign) else [n.target]) for t in ast.walk(t_) if isinstance(t, ast.Name)]
+        self.cdefs = dict(self.defs)
+        for st in flat(self.CL.body):
+            if isinstance(st, ast.Assign) and len(st.targets) == 1 and isinstance(st.targets[0], ast.Name) and cl_assigned.count(st.targets[0].id) == 1 and st.targets[0].id != self.loopvar:
+                self.cdefs[st.targets[0].id] = st.value
+        # the running offset
+        in_cl = {id(x) for x in ast.walk(self.CL)}
+        advanced = [n for n in ast.walk(self.SL) if isinstance(n, ast.AugAssign) and isinstance(n.target, ast.Name) and id(n) not in in_cl]
+        used = set()
+        row_subs = [x.slice for x in ast.walk(self.CL) if isinstance(x, ast.Subscript) and u(x.value) == self.matrix]
+        for e in list(self.CL.iter.args) + [self.arg("global")] + row_subs:
+            if e is not None:
+                used |= {x.id for x in ast.walk(inline_node(e, self.defs_at(e))) if isinstance(x, ast.Name)}
+        cands = sorted({n.target.id for n in advanced} & used)
+        if len(cands) != 1:
+            raise AnchorMissing(f"running client offset of the sub-task loop (a local advanced after the client loop that the client range / element-wide index is computed from; candidates {cands})")
+        self.svar = cands[0]
+        self.advances = [n for n in advanced if n.target.id == self.svar]
+
+    def arg(self, role):
+        """argument of the TaskAllocation construction by constructor position: 'task' | 'local' | 'global' | 'total'"""
+        return self.bd.get(self.ta_params[("task", "local", "global", "total").index(role)])
+
+    def defs_at(self, expr):
+        """the definitions that may be inlined into expr: function-wide single-assignment locals, plus the client loop's own definitions for an expression inside its body"""
+        return self.cdefs if any(any(a is st for st in self.CL.body) for a in [expr] + list(source.ancestors(expr))) else self.defs
+
+    def prep(self, expr):
+        """copy of expr with single-assignment locals inlined and every sub-expression that IS the row count (by data flow) replaced by the name __rows__"""
+        rows_texts = self.rows_texts
+        defs = self.defs_at(expr)
+
+        class S(ast.NodeTransformer):
+            def visit(self, n):
+                if isinstance(n, ast.expr) and u(n) in rows_texts:
+                    return ast.Name(id="__rows__", ctx=ast.Load())
+                return self.generic_visit(n)
+
+        return S().visit(inline_node(S().visit(source.clone(expr)), defs))
+
+    def value(self, expr, env):
+        return _ev(self.prep(expr), env)
+
+    def iterations(self, s, n, e, r, flags=(False, False)):
+        """environments of the iterations of the client loop for a sub-task with n clients whose first element-wide index is s (element: e clients, matrix: r rows)"""
+        env = {self.svar: s, self.sub: me.Record(clients=n, completes_parent=flags[0], any_completes_parent=flags[1]), self.elem: me.Record(clients=e), "__rows__": r}
+        args = [self.value(a, env) for a in self.CL.iter.args]
+        if not all(isinstance(a, int) and not isinstance(a, bool) for a in args):
+            raise me.CannotEval(f"{u(self.CL.iter)}: non-integer bounds")
+        out = []
+        for v in range(*args):
+            env2 = dict(env)
+            env2[self.loopvar] = v
+            out.append(env2)
+        return out
+
+    def series(self, expr, case):
+        """values of expr over the iterations of the client loop"""
+        return [self.value(expr, env) for env in self.iterations(*case)]
+
+    def holds_all(self, pred):
+        """(True, None) if pred(case) is true for every representative case, else (False, witness case); CannotEval propagates"""
+        for case in _CASES:
+            if not pred(case):
+                return False, case
+        return True, None
+
+
+# ---- O2.1 -----------------------------------------------------------------------------------------------------------------------------------------------------
+def _tp_roles(tp, a, mtexts, rc_texts):
+    """Roles of the loops enclosing the entry emission `a` in tasks_per_joinpoint, derived from WHAT each loop iterates (not from names):
+    -> (roles: index variable -> 'row' | 'col', loop_roles: what each enclosing loop runs over, unrecognised loops)
+    rows: the matrix itself, range(<row count>) / range(len(<matrix>)), a column; columns: zip(*<matrix>), range(len(<a row>)), a row; plus every use `<matrix>[r][c]`."""
+    roles, kinds, loop_roles, unrec = {}, {}, [], []
+
+    def is_matrix(e):
+        return u(e) in mtexts
+
+    def is_row(e):
+        return (isinstance(e, ast.Subscript) and is_matrix(e.value) and not isinstance(e.slice, ast.Slice)) or (isinstance(e, ast.Name) and kinds.get(e.id) == "row")
+
+    loops = [x for x in source.ancestors(a) if isinstance(x, ast.For)]
+    for lp in reversed(loops):
+        it, tg = lp.iter, lp.target
+        idx = elt = None
+        if isinstance(it, ast.Call) and dotted(it.func) == "enumerate" and len(it.args) == 1 and not it.keywords and isinstance(tg, ast.Tuple) and len(tg.elts) == 2 \
+                and all(isinstance(t, ast.Name) for t in tg.elts):
+            idx, elt, it = tg.elts[0].id, tg.elts[1].id, it.args[0]
+        elif isinstance(tg, ast.Name):
+            elt = tg.id
+        else:
+            unrec.append(lp)
+            continue
+        role = None
+        bound = _range_bound(it)
+        if bound is not None and idx is None:
+            if u(bound) in rc_texts or (isinstance(bound, ast.Call) and dotted(bound.func) == "len" and len(bound.args) == 1 and is_matrix(bound.args[0])):
+                role = "row"
+            elif isinstance(bound, ast.Call) and dotted(bound.func) == "len" and len(bound.args) == 1 and is_row(bound.args[0]):
+                role = "col"
+            idx, elt = elt, None
+        elif is_matrix(it):
+            role, kinds[elt] = "row", "row"
+        elif isinstance(it, ast.Call) and dotted(it.func) == "zip" and len(it.args) == 1 and isinstance(it.args[0], ast.Starred) and is_matrix(it.args[0].value):
+            role, kinds[elt] = "col", "col"
+        elif is_row(it):
+            role = "col"
+        elif isinstance(it, ast.Name) and kinds.get(it.id) == "col":
+            role = "row"
+        loop_roles.append((lp, role, idx))
+        if role is not None and idx is not None:
+            roles[idx] = role
+    # uses <matrix>[r][c]
+    for n in walk_body(tp):
+        if isinstance(n, ast.Subscript) and isinstance(n.value, ast.Subscript) and is_matrix(n.value.value):
+            for e, role in ((n.value.slice, "row"), (n.slice, "col")):
+                if isinstance(e, ast.Name):
+                    if roles.get(e.id, role) != role:
+                        roles[e.id] = "conflict"
+                    else:
+                        roles[e.id] = role
+    out_loops = []
+    for lp, role, idx in loop_roles:
+        if role is None and idx is not None and roles.get(idx) in ("row", "col"):
+            role = roles[idx]
+        if role is None:
+            unrec.append(lp)
+        out_loops.append(role)
+    return roles, out_loops, unrec
+
+
 def step_entry_agreement(chk, drv, rid):
-    """O2.1 (also used by C11/O11.4): the builder's join-point emission and the per-step entry emission are controlled by the same conditions."""
+    """O2.1 (also used by C11/O11.4): the builder's join-point emission and the per-step entry emission are controlled by the same conditions. The emission condition of an
+    entry is evaluated on values: entry kind (join point / task allocation / None padding) x row x column x accumulator empty or not."""
     if rid not in chk.rules:
         chk.rule(rid, "steps are derived from the join points and indexed into the per-step task sets: join-point emission (builder) and entry emission (tasks_per_joinpoint) must be "
                  "controlled by the same conditions: one entry per non-initial join-point column, independent of whether the element was empty unless the builder skips empty elements too", 3,
@@ -42,233 +459,395 @@ def step_entry_agreement(chk, drv, rid):
     if not apps:
         raise AnchorMissing("append of the accumulated task set in tasks_per_joinpoint")
     a = apps[0]
-    loops = [x for x in source.ancestors(a) if isinstance(x, ast.For)]
-    inner = loops[0] if loops else None
-    outer = loops[-1] if loops else None
-    idxvar = outer.target.id if outer is not None and isinstance(outer.target, ast.Name) else None
-    clientvar = inner.target.id if inner is not None and inner is not outer and isinstance(inner.target, ast.Name) else None
-    conds = {"isjp": False, "nonempty": False, "first_row": False, "not_initial": False, "unknown": []}
-    for t, pol in guards(a):
-        for at in (atoms_of(t) if pol else [t]):
-            txt = u(at)
-            if not pol:
-                # in the else-arm of the TaskAllocation test: fine
-                if "isinstance" in txt and "TaskAllocation" in txt:
-                    continue
-                conds["unknown"].append(f"not ({txt})")
-                continue
-            if "isinstance" in txt and "JoinPoint" in txt:
-                conds["isjp"] = True
-            elif txt in (f"len({acc}) > 0", acc, f"len({acc}) != 0", f"len({acc}) >= 1"):
-                conds["nonempty"] = True
-            elif clientvar and txt in (f"{clientvar} == 0", f"0 == {clientvar}"):
-                conds["first_row"] = True
-            elif idxvar and txt in (f"{idxvar} > 0", f"{idxvar} != 0", f"{idxvar} >= 1", f"0 < {idxvar}"):
-                conds["not_initial"] = True
-            else:
-                # a comparison of the column index (or the row) with a constant is decided on values: it must mean exactly "not the initial column" (resp. "the first row")
-                from sa import minieval as _me
-                vec = None
-                var = next((v_ for v_ in (idxvar, clientvar) if v_ and isinstance(at, ast.Compare) and {x.id for x in ast.walk(at) if isinstance(x, ast.Name)} == {v_}), None)
-                if var:
-                    try:
-                        vec = [bool(_me.ev(at, {var: k})) for k in range(5)]
-                    except _me.CannotEval:
-                        vec = None
-                if vec is not None and var == idxvar:
-                    if vec == [False, True, True, True, True]:
-                        conds["not_initial"] = True
-                    else:
-                        conds["wrong_idx"] = txt
-                elif vec is not None and var == clientvar:
-                    if vec == [True, False, False, False, False]:
-                        conds["first_row"] = True
-                    else:
-                        conds["wrong_row"] = txt
-                else:
-                    conds["unknown"].append(txt)
-    for k_, what in (("wrong_idx", "every join-point column except the initial one (column 0)"), ("wrong_row", "exactly one row (the first)")):
-        if conds.get(k_):
-            chk.ob(rid, f"an entry is emitted for {what}", False, a, f"`{conds[k_]}` selects other columns / rows: an element left empty at the start of the schedule gets no entry, entries are shifted against the steps",
-                   key=f"esrally/driver/driver.py:Allocator.tasks_per_joinpoint:{k_}")
-    if conds["unknown"]:
-        chk.unknown(rid, f"entry emission in tasks_per_joinpoint is controlled by unrecognised condition(s) {conds['unknown']}", a)
+    # the matrix as seen by tasks_per_joinpoint: the builder's value (a property / method of the same class) and the locals bound to it; its row count as the builder defines it
+    mtexts = {f"self.{b.name}", f"self.{b.name}()"}
+    mtexts |= {n.targets[0].id for n in walk_body(tp) if isinstance(n, ast.Assign) and len(n.targets) == 1 and isinstance(n.targets[0], ast.Name) and u(n.value) in mtexts}
+    try:
+        rc_texts = {inline(_matrix_alloc(b)[1], local_defs(b))}
+    except AnchorMissing:
+        rc_texts = set()
+    roles, loop_roles, unrec = _tp_roles(tp, a, mtexts, rc_texts)
+    rowvars = {v for v, r in roles.items() if r == "row"}
+    colvars = {v for v, r in roles.items() if r == "col"}
+    gs = guards(a, path_sensitive=True)
+    unknown = []
+
+    def emitted(kind, r, c, nonempty, gs=gs):
+        env = {acc: ({"t"} if nonempty else set())}
+        env.update({v: r for v in rowvars})
+        env.update({v: c for v in colvars})
+
+        def atom(n):
+            if isinstance(n, (ast.BoolOp, ast.Constant, ast.NamedExpr)) or (isinstance(n, ast.UnaryOp) and isinstance(n.op, ast.Not)):
+                return None
+            if isinstance(n, ast.Call) and dotted(n.func) == "isinstance" and len(n.args) == 2:
+                cls = {last_attr(x) for x in (n.args[1].elts if isinstance(n.args[1], ast.Tuple) else [n.args[1]])}
+                if cls <= {"JoinPoint", "TaskAllocation"}:
+                    return (kind == "jp" and "JoinPoint" in cls) or (kind == "ta" and "TaskAllocation" in cls)
+                raise UnknownAtom(u(n))
+            callees = {id(x.func) for x in ast.walk(n) if isinstance(x, ast.Call)}
+            names = {x.id for x in ast.walk(n) if isinstance(x, ast.Name) and id(x) not in callees}
+            if isinstance(n, ast.Compare) and len(n.ops) == 1 and isinstance(n.ops[0], (ast.Is, ast.IsNot)) and source.is_const(n.comparators[0]) and n.comparators[0].value is None \
+                    and not (names & (set(env) | {"self"})):
+                return (kind == "none") == isinstance(n.ops[0], ast.Is)
+            if names and names <= set(env):
+                try:
+                    return bool(me.ev(n, env))
+                except me.CannotEval:
+                    pass
+            raise UnknownAtom(u(n))
+
+        for t, pol in gs:
+            try:
+                if bool_eval(t, atom) != pol:
+                    return False
+            except UnknownAtom as x:
+                txt = str(x) if pol else f"not ({x})"
+                if txt not in unknown:
+                    unknown.append(txt)
+                return False
+        return True
+
+    table = {(k, r, c, ne): emitted(k, r, c, ne) for k in ("jp", "ta", "none") for r in range(4) for c in range(5) for ne in (False, True)}
+    if unknown:
+        chk.unknown(rid, f"entry emission in tasks_per_joinpoint is controlled by unrecognised condition(s) {unknown}", a)
         return
-    chk.ob(rid, "an entry is emitted only at a join-point column", conds["isjp"], a, f"guards: {[(u(t), p) for t, p in guards(a)]}")
+    if unrec or "conflict" in roles.values():
+        chk.unknown(rid, f"entry emission in tasks_per_joinpoint: cannot tell whether `{short(unrec[0].iter if unrec else a, 50)}` runs over the rows or the columns of the matrix", unrec[0] if unrec else a)
+        return
+    row_loop = "row" in loop_roles
+    nonempty = any(table["jp", r, c, True] != table["jp", r, c, False] for r in range(4) for c in range(5))
+    E = {(r, c) for r in range(4) for c in range(5) if table["jp", r, c, True]}
+    if not row_loop:
+        E = {(0, c) for r, c in E}
+    cols = {c for _, c in E}
+    rows_of = {c: {r for r, c_ in E if c_ == c} for c in cols}
+    isjp = any(table.values()) and not any(v for (k, _, _, _), v in table.items() if k != "jp")
+    if not nonempty and cols and cols - {0} != {1, 2, 3, 4}:
+        chk.ob(rid, "an entry is emitted for every join-point column except the initial one (column 0)", False, a,
+               f"entries are emitted at join-point columns {sorted(cols)} of 0..4 only: an element left empty at the start of the schedule gets no entry, entries are shifted against the steps",
+               key="esrally/driver/driver.py:Allocator.tasks_per_joinpoint:wrong_idx")
+    if not nonempty and row_loop and any(len(rs) == 1 and rs != {0} for rs in rows_of.values()):
+        chk.ob(rid, "an entry is emitted for exactly one row (the first)", False, a, f"rows per join-point column: { {c: sorted(rs) for c, rs in sorted(rows_of.items())} }: a matrix with one row never gets an entry",
+               key="esrally/driver/driver.py:Allocator.tasks_per_joinpoint:wrong_row")
+    chk.ob(rid, "an entry is emitted only at a join-point column", isjp, a, f"guards: {[(u(t), p) for t, p in gs]}")
     # builder side: is the join-point broadcast inside the schedule loop conditional on the element being non-empty?
-    sched_loops = [n for n in walk_body(b) if isinstance(n, ast.For) and is_self_attr(n.iter, "schedule")]
+    sched_loops = [n for n in walk_body(b) if isinstance(n, ast.For) and any(isinstance(x, ast.Call) and last_attr(x.func) == "TaskAllocation" for x in ast.walk(n))]
     if not sched_loops:
         raise AnchorMissing("schedule loop in the matrix builder")
     L = sched_loops[0]
-    jp_assign = [n for n in ast.walk(L) if isinstance(n, ast.Assign) and isinstance(n.value, ast.Call) and last_attr(n.value.func) == "JoinPoint"]
-    builder_cond = []
-    if jp_assign:
-        builder_cond = [(u(t), pol) for t, pol in guards(jp_assign[0], stop=L)]
-    cont = [n for n in L.body if isinstance(n, ast.If) and any(isinstance(x, ast.Continue) for x in n.body)]
-    builder_skips_empty = bool(builder_cond) or bool(cont)
-    ok = conds["nonempty"] == builder_skips_empty
+    jp_calls = [n for n in ast.walk(L) if isinstance(n, ast.Call) and last_attr(n.func) == "JoinPoint"]
+    if not jp_calls:
+        raise AnchorMissing("JoinPoint(...) construction inside the schedule loop of the matrix builder")
+    builder_cond = [(u(t), pol) for t, pol in guards(jp_calls[0], stop=L, path_sensitive=True)]
+    builder_skips_empty = bool(builder_cond)
+    ok = nonempty == builder_skips_empty
     chk.ob(rid, "join points and per-step entries are emitted under the same emptiness condition", ok, a,
-           f"builder emits a join point per element {'only if non-empty' if builder_skips_empty else 'unconditionally'}; entries are emitted {'only for non-empty task sets' if conds['nonempty'] else 'for every join point'}"
+           f"builder emits a join point per element {'only if non-empty' if builder_skips_empty else 'unconditionally'}; entries are emitted {'only for non-empty task sets' if nonempty else 'for every join point'}"
            + ("" if ok else " -> number of steps (join points - 1) and number of entries disagree for a schedule with an empty element"),
            key=f"{_D}:Allocator.tasks_per_joinpoint:entry-vs-joinpoint")
-    once = conds["nonempty"] or conds["first_row"] or (clientvar is None)
+    once = nonempty or not row_loop or all(len(rs) == 1 for rs in rows_of.values())
     chk.ob(rid, "one entry per join-point column (not one per client row)", once, a, "" if once else "entry appended for every client row of the join-point column")
-    init_skip = conds["nonempty"] or conds["not_initial"]
+    init_skip = nonempty or 0 not in cols
     chk.ob(rid, "the initial join point yields no entry", init_skip, a, "" if init_skip else "an entry is emitted for the artificial first join point: entries are shifted by one step")
-    resets = [n for n in walk_body(tp) if isinstance(n, ast.Assign) and isinstance(n.targets[0], ast.Name) and n.targets[0].id == acc and source.parent(n) is source.parent(source.enclosing_stmt(a))]
-    chk.ob(rid, "accumulator reset after each entry", bool(resets), a, "")
-    adds = [n for n in walk_body(tp) if isinstance(n, ast.Call) and u(n.func) == f"{acc}.add"]
-    ok = bool(adds) and any(pol and "TaskAllocation" in u(t) for t, pol in guards(adds[0])) and u(adds[0].args[0]).endswith(".task")
-    chk.ob(rid, "task allocations are collected into the current entry", ok, adds[0] if adds else tp, "")
-    # steps derived from join points
+    # the accumulator is re-created / cleared whenever an entry is emitted: in the block of the append, or under the same conditions inside the same loop
+    blk = logical_parent(source.enclosing_stmt(a))
+    inner_loop = source.enclosing(a, ast.For)
+    all_resets = [n for n in walk_body(tp) if ((isinstance(n, ast.Assign) and isinstance(n.targets[0], ast.Name) and n.targets[0].id == acc)
+                                               or (isinstance(n, ast.Expr) and isinstance(n.value, ast.Call) and u(n.value.func) == f"{acc}.clear"))
+                  and inner_loop is not None and any(x is inner_loop for x in source.ancestors(n))]
+    g_a = {(u(t_), p_) for t_, p_ in guards(a, stop=inner_loop, path_sensitive=True)}
+    resets = [n for n in all_resets if logical_parent(n) is blk or {(u(t_), p_) for t_, p_ in guards(n, stop=inner_loop, path_sensitive=True)} == g_a]
+    if all_resets and not resets:
+        chk.unknown(rid, f"`{short(all_resets[0], 40)}` resets the accumulator under other conditions than the entry is emitted under", all_resets[0])
+    else:
+        chk.ob(rid, "accumulator reset after each entry", bool(resets), a, "" if resets else f"`{acc}` is neither re-created nor cleared inside the loop that appends it: every entry repeats the tasks of the earlier steps")
+    adds = [n for n in walk_body(tp) if isinstance(n, ast.Call) and u(n.func) == f"{acc}.add" and len(n.args) == 1]
+    if not adds:
+        chk.unknown(rid, f"no `{acc}.add(...)` in tasks_per_joinpoint: how task allocations are collected into the current entry is not recognised", tp)
+    else:
+        # collected for every task allocation (any row, any column) and for nothing else — decided on the same value table as the emission; the collected value is the
+        # attribute the TaskAllocation constructor stores its first parameter (the task) in
+        ags = guards(adds[0], path_sensitive=True)
+        n_unknown = len(unknown)
+        tbl = {(k, r, c, ne): emitted(k, r, c, ne, ags) for k in ("jp", "ta", "none") for r in range(3) for c in range(3) for ne in (False, True)}
+        ta_init = drv.methods(drv.cls("TaskAllocation")).get("__init__")
+        task_attr = None
+        if ta_init is not None and len(params_of(ta_init)) >= 2:
+            task_attr = next((n.targets[0].attr for n in walk_body(ta_init) if isinstance(n, ast.Assign) and len(n.targets) == 1 and is_self_attr(n.targets[0]) and u(n.value) == params_of(ta_init)[1]), None)
+        if len(unknown) > n_unknown or task_attr is None:
+            chk.unknown(rid, f"collection of the task allocations `{short(adds[0], 40)}` is controlled by unrecognised condition(s) {unknown[n_unknown:]}", adds[0])
+        else:
+            ok = all(v == (k == "ta") for (k, _, _, _), v in tbl.items()) and isinstance(adds[0].args[0], ast.Attribute) and adds[0].args[0].attr == task_attr
+            chk.ob(rid, "task allocations are collected into the current entry", ok, adds[0], f"`{short(adds[0], 50)}` under {[(u(t_), p_) for t_, p_ in ags]}")
+    # steps derived from join points: the driver stores the allocator's entries on itself and indexes them by its step counter
     D = drv.cls("Driver")
-    sb = drv.methods(D).get("start_benchmark")
-    ok = sb is not None and any(isinstance(n, ast.Assign) and any(is_self_attr(t, "tasks_per_join_point") for t in n.targets) and u(n.value).endswith(".tasks_per_joinpoint") for n in walk_body(sb))
-    chk.ob(rid, "driver takes its per-step entries from the allocator", ok, sb if sb is not None else D, "")
-    up = drv.methods(D).get("update_progress_message")
-    ok = up is not None and any(isinstance(n, ast.Subscript) and is_self_attr(n.value, "tasks_per_join_point") and is_self_attr(n.slice, "current_step") for n in walk_body(up))
-    chk.ob(rid, "progress reporting indexes the entries by the current step", ok, up if up is not None else D, "")
+    dm = drv.methods(D)
+    stores = [(n, t.attr) for m_ in dm.values() for n in walk_body(m_) if isinstance(n, ast.Assign) and isinstance(n.value, ast.Attribute) and n.value.attr == tp.name
+              for t in n.targets if is_self_attr(t)]
+    if not stores:
+        chk.unknown(rid, f"no method of Driver stores the allocator's per-step entries (`<allocator>.{tp.name}`) in an attribute", D)
+        return
+    attr = stores[0][1]
+    writers = [n for m_ in dm.values() for n in walk_body(m_) if isinstance(n, (ast.Assign, ast.AugAssign, ast.AnnAssign))
+               and any(is_self_attr(t, attr) for t in (n.targets if isinstance(n, ast.Assign) else [n.target]))]
+    other = [n for n in writers if not any(n is s for s, _ in stores) and not (isinstance(n, ast.Assign) and source.is_const(n.value) and n.value.value is None)]
+    chk.ob(rid, "driver takes its per-step entries from the allocator", not other, other[0] if other else stores[0][0],
+           "" if not other else f"`self.{attr}` is also written by `{short(other[0], 60)}`")
+    subs = [(m_, n) for m_ in dm.values() for n in walk_body(m_) if isinstance(n, ast.Subscript) and is_self_attr(n.value, attr)]
+    if not subs:
+        chk.unknown(rid, f"no method of Driver indexes the per-step entries `self.{attr}`", D)
+        return
+    # the step counter: an attribute advanced by one that starts before the first step (-1, the artificial initial join point)
+    counters = {n.target.attr for m_ in dm.values() for n in walk_body(m_) if isinstance(n, ast.AugAssign) and isinstance(n.op, ast.Add) and is_self_attr(n.target) and source.is_const(n.value, 1)}
+    counters &= {t.attr for m_ in dm.values() for n in walk_body(m_) if isinstance(n, ast.Assign) and u(n.value) == "-1" for t in n.targets if is_self_attr(t)}
+    if not counters:
+        chk.unknown(rid, "the driver's step counter (an attribute initialised to -1 and advanced by `+= 1`) is not recognised", D)
+        return
+    bad = []
+    for m_, n in subs:
+        sl = inline_node(n.slice, local_defs(m_))
+        if not (is_self_attr(sl) and sl.attr in counters):
+            bad.append(n)
+    chk.ob(rid, "progress reporting indexes the entries by the current step", not bad, bad[0] if bad else subs[0][1],
+           "" if not bad else f"`{short(bad[0], 60)}`: the index is not the driver's step counter (an attribute advanced by `+= 1`)")
 
 
 def client_floor_rule(chk, rid, drv):
     """Allocator.clients == max(1, max client count over ALL schedule elements): the floor of one row must hold for a NON-empty schedule whose elements are all empty as well
-    (`max(gen, default=1)` only covers the empty schedule) — shared with C11 (filters can empty every element)."""
+    (`max(gen, default=1)` only covers the empty schedule) — shared with C11 (filters can empty every element). Decided on values: the property's body is evaluated for
+    representative schedules (client counts per element), whatever its form (running maximum, max() over a comprehension, list with a leading 1, ...)."""
     AL2 = drv.cls("Allocator")
     clf = drv.methods(AL2).get("clients")
     if clf is None:
         raise AnchorMissing("Allocator.clients")
-    rets = [n for n in walk_body(clf) if isinstance(n, ast.Return) and n.value is not None]
-    mx_ = [n for n in walk_body(clf) if isinstance(n, ast.Call) and dotted(n.func) == "max"]
-    all_elems = floor = False
-    detail = ""
-    lp_ = [n for n in walk_body(clf) if isinstance(n, ast.For) and is_self_attr(n.iter, "schedule")]
-    if lp_ and mx_ and len(rets) == 1 and isinstance(rets[0].value, ast.Name):
-        acc = rets[0].value.id
-        lv = lp_[0].target.id if isinstance(lp_[0].target, ast.Name) else None
-        upd = [n for n in ast.walk(lp_[0]) if isinstance(n, ast.Assign) and u(n.targets[0]) == acc and isinstance(n.value, ast.Call) and dotted(n.value.func) == "max"]
-        all_elems = len(upd) == 1 and not guards(upd[0], stop=lp_[0]) and not any(isinstance(x, (ast.Break, ast.Continue, ast.Return)) for x in ast.walk(lp_[0])) \
-            and {u(a) for a in upd[0].value.args} == {acc, f"{lv}.clients"}
-        inits = [n for n in clf.body if isinstance(n, ast.Assign) and u(n.targets[0]) == acc and isinstance(n.value, ast.Constant) and isinstance(n.value.value, int)]
-        floor = len(inits) == 1 and inits[0].value.value >= 1 and clf.body.index(inits[0]) < clf.body.index(lp_[0])
-        detail = f"loop form: {acc} starts at {u(inits[0].value) if inits else '?'}"
-    elif len(rets) == 1 and isinstance(rets[0].value, ast.Call) and dotted(rets[0].value.func) == "max":
-        outer = rets[0].value
-        consts = [a for a in outer.args if isinstance(a, ast.Constant) and isinstance(a.value, int) and a.value >= 1]
-        inner = [a for a in outer.args if not isinstance(a, ast.Constant)]
-        floor = bool(consts) and len(outer.args) >= 2
-        all_elems = any("self.schedule" in u(a) and ".clients" in u(a) and not any(isinstance(x, ast.comprehension) and x.ifs for x in ast.walk(a)) and "[" not in u(a).replace("[]", "") for a in (inner or outer.args))
-        detail = f"expression form: {short(outer, 70)}" + ("" if floor else " — `default=` only applies to an EMPTY schedule; a schedule whose elements are all empty yields 0 rows")
-    chk.ob(rid, "row count == max client count over all schedule elements", all_elems, clf, detail, key="esrally/driver/driver.py:Allocator.clients:max-over-all")
-    chk.ob(rid, "row count is at least 1 for every schedule (also a non-empty one whose elements are all empty)", floor, clf, detail, key="esrally/driver/driver.py:Allocator.clients:floor")
+    # the schedule attribute: the self attribute the property reads (the one the builder iterates, if the property reads several)
+    attrs = sorted({n.attr for n in walk_body(clf) if is_self_attr(n) and isinstance(n.ctx, ast.Load)})
+    if len(attrs) != 1:
+        try:
+            sched = _Alloc(drv).sched_attr
+        except AnchorMissing:
+            sched = None
+        if sched not in attrs:
+            raise AnchorMissing(f"the schedule attribute read by Allocator.clients (reads {attrs})")
+        attrs = [sched]
+    sched = attrs[0]
+
+    def rows(counts):
+        return _call_value(clf, {"self": me.Record(**{sched: [me.Record(clients=c) for c in counts]})})
+
+    wide = [[2, 5, 3], [5, 2], [3], [0, 4], [1, 1, 7], [2, 2], [6, 0, 1]]
+    empty = [[], [0], [0, 0]]
+    try:
+        got = {tuple(cs): rows(cs) for cs in wide + empty}
+    except me.CannotEval as x:
+        chk.unknown(rid, f"Allocator.clients cannot be evaluated on representative schedules ({x})", clf)
+        return
+    w_all = next((cs for cs in wide if got[tuple(cs)] != max(cs)), None)
+    w_floor = next((cs for cs in empty if not (isinstance(got[tuple(cs)], int) and got[tuple(cs)] >= 1)), None)
+    chk.ob(rid, "row count == max client count over all schedule elements", w_all is None, clf,
+           "evaluated for element client counts " + ", ".join(f"{cs} -> {got[tuple(cs)]}" for cs in wide[:4]) if w_all is None else
+           f"a schedule whose elements request {w_all} clients gets {got[tuple(w_all)]} row(s) instead of {max(w_all)}", key="esrally/driver/driver.py:Allocator.clients:max-over-all")
+    chk.ob(rid, "row count is at least 1 for every schedule (also a non-empty one whose elements are all empty)", w_floor is None, clf,
+           "evaluated for " + ", ".join(f"{cs} -> {got[tuple(cs)]}" for cs in empty) if w_floor is None else
+           f"a schedule whose elements request {w_floor} clients ({'the empty schedule' if not w_floor else 'every element left empty'}) yields {got[tuple(w_floor)]} row(s): "
+           "no client walks through the join points (`default=` of max() only applies to an EMPTY schedule)", key="esrally/driver/driver.py:Allocator.clients:floor")
+
+
+def _case_txt(case):
+    s, n, e, r = case
+    return f"sub-task with {n} client(s) starting at element-wide index {s}, element with {e} client(s), {r} row(s)"
 
 
 def allocation_totals(chk, rid, drv):
-    """TaskAllocation(... global_client_index=i, total_clients=<element>.clients) in the allocation builder: the values the ramp-up slot of a client is computed from
-    (shared with C05)."""
-    b = _builder(drv)
-    L = [n for n in walk_body(b) if isinstance(n, ast.For) and is_self_attr(n.iter, "schedule")][0]
-    elem = L.target.id
-    tac = [n for n in ast.walk(L) if isinstance(n, ast.Call) and last_attr(n.func) == "TaskAllocation"]
-    if not tac:
-        raise AnchorMissing("TaskAllocation(...) in the allocation builder")
-    ta_init = drv.methods(drv.cls("TaskAllocation"))["__init__"]
-    bd = source.bind_args(tac[0], ta_init)
-    cl = source.enclosing(tac[0], ast.For)
-    i = cl.target.id if cl is not None and isinstance(cl.target, ast.Name) else None
-    chk.ob(rid, "allocation: total clients == the schedule element's client count", u(bd.get("total_clients")) == f"{elem}.clients", tac[0], f"total_clients={u(bd.get('total_clients'))}",
+    """TaskAllocation(task, task-local index, element-wide index, total clients) in the allocation builder: the values the ramp-up slot of a client and the partition of the
+    parameter source are computed from (shared with C03 / C05). Arguments are taken by constructor position and evaluated over the iterations of the client loop for
+    representative (offset, sub-task clients, element clients, row count)."""
+    A = _Alloc(drv)
+    tot, gl, loc = A.arg("total"), A.arg("global"), A.arg("local")
+    if tot is None or gl is None or loc is None:
+        raise AnchorMissing("arguments of TaskAllocation(...) in the allocation builder")
+    try:
+        ok_t, w_t = A.holds_all(lambda c: all(v == c[2] for v in A.series(tot, c)))
+        ok_g, w_g = A.holds_all(lambda c: A.series(gl, c) == list(range(c[0], c[0] + c[1])))
+        ok_l, w_l = A.holds_all(lambda c: A.series(loc, c) == list(range(c[1])))
+    except me.CannotEval as x:
+        chk.unknown(rid, f"arguments of `{short(A.tac, 60)}` cannot be evaluated over the client loop ({x})", A.tac)
+        return
+    chk.ob(rid, "allocation: total clients == the schedule element's client count", ok_t, A.tac, f"total clients = {inline(tot, A.defs_at(tot))}" + ("" if ok_t else f": {A.series(tot, w_t)} for a {_case_txt(w_t)}"),
            key="esrally/driver/driver.py:Allocator.allocations:total-clients")
-    chk.ob(rid, "allocation: global client index == the element-wide client index", i is not None and u(bd.get("global_client_index")) == i, tac[0], f"global_client_index={u(bd.get('global_client_index'))}",
-           key="esrally/driver/driver.py:Allocator.allocations:global-index")
+    chk.ob(rid, "allocation: global client index == the element-wide client index", ok_g, A.tac,
+           f"element-wide index = {inline(gl, A.defs_at(gl))}" + ("" if ok_g else f": {A.series(gl, w_g)} for a {_case_txt(w_g)}"), key="esrally/driver/driver.py:Allocator.allocations:global-index")
     # task-local index == i - s where s is the element-wide index of the sub-task's first client (advanced by the sub-task's client count): contiguous 0..k-1 per sub-task,
     # which is what the partitioning of co-located clients relies on (a modulo hands out a rotated range)
-    cit = bd.get("client_index_in_task")
-    ok = False
-    if isinstance(cit, ast.BinOp) and isinstance(cit.op, ast.Sub) and i is not None and u(cit.left) == i and isinstance(cit.right, ast.Name):
-        sv = cit.right.id
-        sub_loop = source.enclosing(cl, ast.For)
-        adv = [n for n in ast.walk(L) if isinstance(n, ast.AugAssign) and isinstance(n.op, ast.Add) and u(n.target) == sv]
-        ok = len(adv) == 1 and sub_loop is not None and isinstance(sub_loop.target, ast.Name) and u(adv[0].value) == f"{sub_loop.target.id}.clients" \
-            and any(isinstance(n, ast.Assign) and u(n.targets[0]) == sv and source.is_const(n.value, 0) for n in L.body)
-    chk.ob(rid, "allocation: task-local client index == element-wide index minus the index of the sub-task's first client", ok, tac[0], f"client_index_in_task={u(cit) if cit is not None else None}",
-           key="esrally/driver/driver.py:Allocator.allocations:task-local-index")
+    adv_ok, adv_detail = _offset_advance(A)
+    if adv_ok is None:
+        chk.unknown(rid, adv_detail, A.SL)
+        return
+    ok = ok_l and adv_ok and _offset_init(A) is not None
+    chk.ob(rid, "allocation: task-local client index == element-wide index minus the index of the sub-task's first client", ok, A.tac,
+           f"task-local index = {inline(loc, A.defs_at(loc))}" + ("" if ok_l else f": {A.series(loc, w_l)} for a {_case_txt(w_l)}") + ("" if adv_ok else f"; {adv_detail}")
+           + ("" if _offset_init(A) is not None else f"; `{A.svar}` does not start at 0 for each element"), key="esrally/driver/driver.py:Allocator.allocations:task-local-index")
+
+
+def _offset_advance(A):
+    """(ok, detail): the running offset is advanced exactly once per sub-task, after the client loop, by the sub-task's client count (on values). ok None: not recognised."""
+    adv = A.advances
+    if len(adv) != 1 or not isinstance(adv[0].op, ast.Add):
+        return False, f"`{A.svar}` is advanced by {[short(n, 40) for n in adv]} in the sub-task loop"
+    blk = flat(A.SL.body)
+    top = next((st for st in blk if any(x is A.CL for x in ast.walk(st))), None)
+    if not any(adv[0] is st for st in blk) or top is None:
+        return False, f"`{short(adv[0], 40)}` is not a statement of the sub-task loop's own block (once per sub-task)"
+    if [i for i, st in enumerate(blk) if st is adv[0]][0] < [i for i, st in enumerate(blk) if st is top][0]:
+        return False, f"`{short(adv[0], 40)}` precedes the client loop"
+    try:
+        for s, n, e, r in _CASES:
+            env = {A.svar: s, A.sub: me.Record(clients=n), A.elem: me.Record(clients=e), "__rows__": r}
+            v = A.value(adv[0].value, env)
+            if v != n:
+                return False, f"`{short(adv[0], 50)}` advances the offset by {v} for a {_case_txt((s, n, e, r))}"
+    except me.CannotEval as x:
+        return None, f"the amount `{u(adv[0].value)}` the client offset is advanced by cannot be evaluated ({x})"
+    return True, short(adv[0], 50)
+
+
+def _offset_init(A):
+    """the statement that sets the running offset to 0 in the per-element block before the sub-task loop (None if there is none)"""
+    blk = flat(A.L.body)
+    top = next((i for i, st in enumerate(blk) if any(x is A.SL for x in ast.walk(st))), None)
+    for i, st in enumerate(blk):
+        if top is not None and i < top and isinstance(st, ast.Assign):
+            for t, v in _assign_pairs(st):
+                if isinstance(t, ast.Name) and t.id == A.svar and source.is_const(v, 0):
+                    return st
+    return None
+
+
+def _assign_pairs(st):
+    """(target, value) pairs of an assignment, tuple assignments `a, b = x, y` split"""
+    out = []
+    for t in st.targets:
+        if isinstance(t, (ast.Tuple, ast.List)) and isinstance(st.value, (ast.Tuple, ast.List)) and len(t.elts) == len(st.value.elts):
+            out += list(zip(t.elts, st.value.elts))
+        else:
+            out.append((t, st.value))
+    return out
+
+
+def _joinpoint_lists(A):
+    """the two client-list arguments (clients of the completing task, clients of `any` tasks: constructor positions 2 and 3) of the JoinPoint built inside the per-element loop"""
+    jp_init = A.drv.methods(A.drv.cls("JoinPoint")).get("__init__")
+    if jp_init is None or len(params_of(jp_init)) < 4:
+        raise AnchorMissing("JoinPoint.__init__(self, id, completing clients, any-completing clients)")
+    p1, p2 = params_of(jp_init)[2:4]
+    for c in [n for n in ast.walk(A.L) if isinstance(n, ast.Call) and last_attr(n.func) == "JoinPoint"]:
+        bd = source.bind_args(c, jp_init)
+        if p1 in bd and p2 in bd:
+            return c, [bd[p1], bd[p2]]
+    raise AnchorMissing("JoinPoint(id, completing clients, any-completing clients) in the per-element loop of the allocation builder")
 
 
 def joinpoint_lists_reset(chk, rid, drv):
     """The two client lists handed to a schedule element's closing JoinPoint (clients of the completing task / of `any` tasks) are fresh empty lists per element:
     a list created outside the per-element loop makes every later join point inherit an earlier element's completing clients (shared with C01)."""
-    b = _builder(drv)
-    L = [n for n in walk_body(b) if isinstance(n, ast.For) and is_self_attr(n.iter, "schedule")][0]
-    jpc = [n for n in ast.walk(L) if isinstance(n, ast.Call) and last_attr(n.func) == "JoinPoint"]
-    if not jpc or len(jpc[0].args) < 3:
-        raise AnchorMissing("JoinPoint(id, completing clients, any-completing clients) in the per-element loop of the allocation builder")
-    inner = [n for n in L.body if isinstance(n, ast.For)]
-    for a in jpc[0].args[1:3]:
+    A = _Alloc(drv)
+    jp, lists = _joinpoint_lists(A)
+    blk = flat(A.L.body)
+    top = next((i for i, st in enumerate(blk) if any(x is A.SL for x in ast.walk(st))), len(blk))
+    for k, a in enumerate(lists):
         lst = u(a)
-        ini = [n for n in L.body if isinstance(n, ast.Assign) and u(n.targets[0]) == lst and isinstance(n.value, ast.List) and not n.value.elts]
-        ok = len(ini) == 1 and bool(inner) and L.body.index(ini[0]) < L.body.index(inner[0])
-        chk.ob(rid, f"join-point client list `{lst}` starts empty for each schedule element", ok, ini[0] if ini else L,
+        if not isinstance(a, ast.Name):
+            chk.unknown(rid, f"join-point client list `{lst}` is not a local of the builder", jp)
+            continue
+        writes = [(st, v) for st in walk_body(A.b) if isinstance(st, ast.Assign) for t, v in _assign_pairs(st) if isinstance(t, ast.Name) and t.id == lst]
+        if not writes:
+            chk.unknown(rid, f"no assignment to the join-point client list `{lst}` in the builder", jp)
+            continue
+        ini = [st for st, v in writes if _is_fresh_list(v) and any(st is x for x in blk[:top])]
+        ok = len(ini) == 1
+        chk.ob(rid, f"join-point client list `{lst}` starts empty for each schedule element", ok, ini[0] if ini else writes[0][0],
                "" if ok else "not re-created inside the per-element loop: later join points inherit the completing clients of an earlier element",
-               key=f"esrally/driver/driver.py:Allocator.allocations:fresh-list:{jpc[0].args[1:3].index(a)}")
-
-
-def _ev_num(expr, env):
-    """sa.minieval.ev plus what minieval lacks for bound arithmetic: min()/max() of SEVERAL arguments and math.ceil / math.floor. The calls are reduced
-    innermost-first to constants (their arguments are evaluated by minieval), the rest of the expression is evaluated by minieval. CannotEval propagates."""
-    import math
-
-    from sa import minieval as me
-
-    class R(ast.NodeTransformer):
-        def visit_Call(self, n):
-            self.generic_visit(n)
-            d = dotted(n.func)
-            if d in ("min", "max") and len(n.args) >= 2 and not n.keywords and not any(isinstance(a, ast.Starred) for a in n.args):
-                vals = [me.ev(a, env) for a in n.args]
-                if all(isinstance(v, (int, float)) and not isinstance(v, bool) for v in vals):
-                    return ast.copy_location(ast.Constant(value=(min if d == "min" else max)(vals)), n)
-            if d in ("math.ceil", "math.floor", "ceil", "floor") and len(n.args) == 1 and not n.keywords:
-                v = me.ev(n.args[0], env)
-                if isinstance(v, (int, float)) and not isinstance(v, bool):
-                    return ast.copy_location(ast.Constant(value=(math.ceil if d.endswith("ceil") else math.floor)(v)), n)
-            return n
-
-    return me.ev(R().visit(source.clone(expr)), env)
+               key=f"esrally/driver/driver.py:Allocator.allocations:fresh-list:{k}")
 
 
 # representative (element's client count e, row count R) pairs: the row count is the maximum over all elements (O2.7), so only e <= R occurs; e >= 1 inside the client loop
 _ER_PAIRS = [(e, r) for r in range(1, 6) for e in range(1, r + 1)]
 
 
-def _bound_values(bound, defs, rows_texts, elem):
+def _bound_values(bound, A):
     """Value of a wrap bound (a modulus / divisor in the per-element loop of the matrix builder) for every representative (e, R): single-assignment locals are inlined, every
     sub-expression that IS the row count (by data flow) stands for R, `<element>.clients` for e. -> (inlined text, [(e, R, value)]); CannotEval when it reads anything else."""
-    from sa import minieval as me
-
-    class S(ast.NodeTransformer):
-        def visit(self, n):
-            if isinstance(n, ast.expr) and u(n) in rows_texts:
-                return ast.Name(id="__rows__", ctx=ast.Load())
-            return self.generic_visit(n)
-
-    # as written (`len(<matrix>)`) and again after inlining (`max_clients` -> `self.clients`)
-    tree = S().visit(inline_node(S().visit(source.clone(bound)), defs))
+    tree = A.prep(bound)
     out = []
     for e, r in _ER_PAIRS:
-        v = _ev_num(tree, {"__rows__": r, elem: me.Record(clients=e)})
+        v = _ev(tree, {"__rows__": r, A.elem: me.Record(clients=e)})
         if isinstance(v, bool) or not isinstance(v, (int, float)):
             raise me.CannotEval(f"{u(bound)}: not a number")
         out.append((e, r, v))
-    return u(inline_node(bound, defs)), out
+    return u(inline_node(bound, A.defs_at(bound))), out
 
 
-def _is_element_count(bound, defs, rows_texts, elem) -> bool:
+def _is_element_count(bound, A) -> bool:
     """the bound is, for every representative (e, R), the element's own client count (which never exceeds the row count)"""
-    from sa import minieval as me
-
     try:
-        return all(v == e for e, _, v in _bound_values(bound, defs, rows_texts, elem)[1])
+        return all(v == e for e, _, v in _bound_values(bound, A)[1])
     except me.CannotEval:
         return False
+
+
+def _wrap_bounds(A):
+    """Every wrap / round computation `<x> % <b>`, `<x> / <b>`, `<x> // <b>` on the element's client indices inside the per-element loop — also inside a helper method of the
+    builder's class (or a module function) called from that loop, its operands translated into the caller's terms (helper locals inlined, parameters replaced by the arguments
+    of the call). -> [(node, dividend, bound)] with dividend / bound as expressions over the builder's names."""
+    idx_names = {A.svar, A.loopvar}
+
+    def about_indices(e):
+        return bool(idx_names & {x.id for x in ast.walk(inline_node(e, A.defs_at(e))) if isinstance(x, ast.Name)})
+
+    def is_wrap(n):
+        return isinstance(n, ast.BinOp) and isinstance(n.op, (ast.Mod, ast.Div, ast.FloorDiv)) and not isinstance(n.left, (ast.Constant, ast.JoinedStr))
+
+    out = [(n, n.left, n.right) for n in ast.walk(A.L) if is_wrap(n) and about_indices(n.left)]
+    cls = source.enclosing_class(A.b)
+    methods = A.drv.methods(cls) if cls is not None else {}
+    for c in ast.walk(A.L):
+        if not isinstance(c, ast.Call):
+            continue
+        f = None
+        if isinstance(c.func, ast.Attribute) and isinstance(c.func.value, ast.Name) and c.func.value.id in ("self", "cls", getattr(cls, "name", "")) and c.func.attr in methods:
+            f = methods[c.func.attr]
+        elif isinstance(c.func, ast.Name):
+            f = A.drv.index().get(c.func.id)
+        if not isinstance(f, source.FUNC_TYPES) or f is A.b or any(isinstance(a, ast.Starred) for a in c.args):
+            continue
+        bd = source.bind_args(c, f)
+        hd = local_defs(f)
+
+        def to_caller(e, bd=bd, hd=hd):
+            class P(ast.NodeTransformer):
+                def visit_Name(self, n):
+                    return source.clone(bd[n.id]) if isinstance(n.ctx, ast.Load) and n.id in bd else n
+
+            return P().visit(inline_node(e, hd))
+
+        for n in walk_body(f):
+            if is_wrap(n):
+                left, right = to_caller(n.left), to_caller(n.right)
+                if about_indices(left):
+                    out.append((n, left, right))
+    return out
+
+
+def _host_cases():
+    """representative (client count, load driver hosts): more hosts than needed, uneven cores, a single host, fewer clients than hosts"""
+    def hosts(*cores):
+        return [{"host": f"h{i}", "cores": c} for i, c in enumerate(cores)]
+    return [(5, hosts(2, 2, 2, 2)), (4, hosts(2, 8)), (7, hosts(3, 3)), (1, hosts(4, 4, 4)), (16, hosts(4)), (9, hosts(8, 2, 3))]
+
+
+def _round_robin(share, slots):
+    return [share // slots + (1 if w < share % slots else 0) for w in range(slots)]
 
 
 def run(chk):
@@ -276,33 +855,22 @@ def run(chk):
     drv, trk = repo.module(_D), repo.module(_T)
     chk.use(drv, trk)
     chk.explanation = (
-        "Decides the allocation arithmetic by shape: join-point / entry agreement; matrix rows addressed modulo the row count (the same modulus for tasks and padding) and, decided on "
+        "Decides the allocation arithmetic on roles located by data flow and on representative values: join-point / entry agreement (the emission condition of a per-step entry "
+        "evaluated over entry kind x row x column x accumulator state); matrix rows addressed modulo the row count (the same modulus for tasks and padding) and, decided on "
         "representative (element clients, row count) values, whether that modulus and the padding bound are the element's own client count (O2.8, client cap of a parallel element); per-task "
-        "client ranges telescope (range(s, s+n), s += n, task-local index i - s); worker partition tiles 0..n-1 contiguously (range(c, c+k), c += k), per-host share = "
-        "min(ceil(n/hosts), remaining) with remaining decreased by the same amount, round-robin per core; worker ids are list positions; a parallel element's client count is "
-        "computed on demand from its current sub-tasks."
+        "client ranges telescope (the client loop evaluated for representative offsets / client counts: element-wide indices s..s+n-1, task-local 0..n-1, offset advanced by n); worker "
+        "partition tiles 0..n-1 contiguously (range(c, c+k), c += k), per-host share = min(ceil(n/hosts), remaining) evaluated over a simulated host loop, with remaining decreased by "
+        "the same amount, round-robin per core; worker ids are list positions; a parallel element's client count is computed on demand from its current sub-tasks (evaluated)."
     )
     chk.not_decided = "rectangularity of the matrix for all shapes (None-padding arithmetic), the per-host ceil split summing to the total for all inputs (guarded by a run-time assert), balance across hosts."
     step_entry_agreement(chk, drv, "O2.1")
-    b = _builder(drv)
-    g = cfg_of(b)
-    defs = local_defs(b)
-
-    matrix, rowcount = None, None
-    for n in walk_body(b):
-        if isinstance(n, ast.Assign) and isinstance(n.value, ast.BinOp) and isinstance(n.value.op, ast.Mult) and isinstance(n.value.left, ast.List) and isinstance(n.targets[0], ast.Name):
-            matrix, rowcount = n.targets[0].id, n.value.right
-    if matrix is None:
-        raise AnchorMissing("matrix allocation in the builder")
-    rc_text = inline(rowcount, defs)
-    L = [n for n in walk_body(b) if isinstance(n, ast.For) and is_self_attr(n.iter, "schedule")][0]
-    elem = L.target.id
+    A = _Alloc(drv)
+    b, defs, L, elem, matrix, rc_text, SL, CL, sub, svar = A.b, A.defs, A.L, A.elem, A.matrix, A.rc_text, A.SL, A.CL, A.sub, A.svar
 
     # ---- O2.2 row index reduced -------------------------------------------------------------------------------------------------------
     chk.rule("O2.2", "every row subscript of the matrix inside the per-client loop is `<client index> % <row count>` (or `% <the element's own client count>`, which never exceeds the "
-             "row count: see O2.8), and the None padding wraps at the same modulus", 3,
+             "row count: see O2.8), and the None padding wraps at the same modulus; every row of the matrix is a list of its own", 3,
              "over-committed parallel element inside a schedule with a wider element: rows addressed modulo the wrong count -> ragged matrix / IndexError")
-    rows_texts = {rc_text, f"len({matrix})"}
     row_mods = []  # (append to a matrix row inside the client loops, the `i % m` its row index is defined as or None)
     ta_apps = []
     for n in ast.walk(L):
@@ -315,7 +883,6 @@ def run(chk):
     n_checked = 0
     for a in ta_apps:
         idx = a.func.value.slice
-        argv = a.args[0]
         loop = source.enclosing(a, ast.For)
         if loop is L or loop is None:
             continue
@@ -327,80 +894,120 @@ def run(chk):
         d = ldefs.get(idx.id, [None])[0] if isinstance(idx, ast.Name) else idx
         is_mod = isinstance(d, ast.BinOp) and isinstance(d.op, ast.Mod)
         # in range either way: reduced modulo the row count itself, or modulo a bound decided (on values) to be the element's own client count, which is at most the row count
-        ok = is_mod and (inline(d.right, defs) == rc_text or _is_element_count(d.right, defs, rows_texts, elem))
+        ok = is_mod and (u(A.prep(d.right)) == "__rows__" or _is_element_count(d.right, A))
         row_mods.append((a, d if is_mod else None, d))
         chk.ob("O2.2", f"row subscript of `{short(a, 50)}`", ok, a, f"index `{u(idx)}` = `{u(d) if d is not None else '?'}`; row count = {rc_text}"
                + ("" if ok else " — not reduced modulo the row count (nor modulo the element's own client count)"))
+    if n_checked == 0:
+        raise AnchorMissing(f"append of the task allocation to a row `{matrix}[<row>]` inside the client loop")
     chk.ob("O2.2", "row subscripts located", n_checked >= 1, L, f"{n_checked} non-broadcast row subscript(s)")
-    mods = [n for n in ast.walk(L) if isinstance(n, ast.BinOp) and isinstance(n.op, ast.Mod)]
-    ok = bool(mods) and all(inline(m.right, defs) == rc_text for m in mods)
+    # every modulus applied to the element's client indices in the loop (row subscript, None padding; also inside helpers called from the loop)
+    wraps = _wrap_bounds(A)
+    mods = [(n, right) for n, _, right in wraps if isinstance(n.op, ast.Mod)]
+    def canon(e):
+        # text of an expression with locals inlined and every spelling of the row count (`self.clients`, `len(<matrix>)`, a local bound to either) unified
+        return u(A.prep(e))
+
+    ok = bool(mods) and all(canon(r_) == "__rows__" for _, r_ in mods)
     if not ok and mods and row_mods and all(d is not None for _, d, _ in row_mods):
         # rows that wrap at the element's own client count: every other modulus of the loop (the padding) must then be that same bound
-        sub_ = {inline(d.right, defs) for _, d, _ in row_mods}
-        ok = len(sub_) == 1 and all(_is_element_count(d.right, defs, rows_texts, elem) for _, d, _ in row_mods) and all(inline(m.right, defs) in sub_ for m in mods)
-    chk.ob("O2.2", "all moduli in the schedule loop are the row count", ok, mods[0] if mods else L, f"{sorted({u(m.right) for m in mods})}")
+        sub_ = {canon(d.right) for _, d, _ in row_mods}
+        ok = len(sub_) == 1 and all(_is_element_count(d.right, A) for _, d, _ in row_mods) and all(canon(r_) in sub_ for _, r_ in mods)
+    if mods:
+        chk.ob("O2.2", "all moduli in the schedule loop are the row count", ok, mods[0][0], f"{sorted({u(r_) for _, r_ in mods})}")
+    else:
+        # no modulus at all in the loop: the unreduced row subscript(s) were reported above
+        chk.ob("O2.2", "all moduli in the schedule loop are the row count", all(d is not None for _, d, _ in row_mods), L, "no modulus on the client indices in the schedule loop")
+    # rows are distinct lists (a `[[]] * n` matrix has ONE row object: every client would get every task)
+    if A.matrix_form == "comprehension":
+        fresh = _is_fresh_list(A.matrix_stmt.value.elt) or isinstance(A.matrix_stmt.value.elt, (ast.List, ast.ListComp))
+        chk.ob("O2.2", "every row of the matrix is a list of its own", fresh, A.matrix_stmt, short(A.matrix_stmt, 70))
+    else:
+        fills = [n for n in walk_body(b) if isinstance(n, ast.Assign) and len(n.targets) == 1 and isinstance(n.targets[0], ast.Subscript) and u(n.targets[0].value) == matrix
+                 and (_is_fresh_list(n.value) or isinstance(n.value, ast.List)) and not any(x is L for x in source.ancestors(n))]
+        full = [n for n in fills if (lp := source.enclosing(n, ast.For)) is not None and _range_bound(lp.iter) is not None and inline(_range_bound(lp.iter), defs) == rc_text
+                and isinstance(lp.target, ast.Name) and u(n.targets[0].slice) == lp.target.id]
+        rep = A.matrix_stmt.value.left if isinstance(A.matrix_stmt.value.left, ast.List) else A.matrix_stmt.value.right
+        if full:
+            chk.ob("O2.2", "every row of the matrix is a list of its own", True, full[0], f"`{short(A.matrix_stmt, 50)}` filled by `{short(full[0], 40)}` for every row")
+        elif isinstance(rep.elts[0], (ast.List, ast.ListComp, ast.Call)):
+            chk.ob("O2.2", "every row of the matrix is a list of its own", False, A.matrix_stmt, f"`{short(A.matrix_stmt, 60)}` repeats ONE list object for every row: each client gets the tasks of all clients")
+        else:
+            chk.unknown("O2.2", f"rows of `{short(A.matrix_stmt, 50)}`: the statement that gives every row its own list is not recognised", A.matrix_stmt)
 
     # ---- O2.3 per-task tiling ----------------------------------------------------------------------------------------------------------------
-    chk.rule("O2.3", "for each sub-task the client loop is range(s, s + <sub-task>.clients) and s is advanced by the same <sub-task>.clients after the loop; task-local index == i - s; "
-             "global index == i; total clients == <element>.clients; s starts at 0 for each element", 6,
+    chk.rule("O2.3", "for each sub-task the client loop runs over the element-wide client indices s .. s + <sub-task>.clients - 1 (each once) and s is advanced by the same <sub-task>.clients "
+             "after the loop; task-local index == i - s; global index == i; total clients == <element>.clients; s starts at 0 for each element (decided on the values the extracted loop "
+             "bounds / constructor arguments take for representative offsets and client counts)", 6,
              "parallel element with two tasks: a client index of the second task is used twice or never")
-    subloops = [n for n in ast.walk(L) if isinstance(n, ast.For) and n is not L and u(n.iter) == elem]
-    if not subloops:
-        raise AnchorMissing("loop over the sub-tasks of a schedule element")
-    SL = subloops[0]
-    sub = SL.target.id
-    cl = [n for n in SL.body if isinstance(n, ast.For) and isinstance(n.iter, ast.Call) and last_attr(n.iter.func) == "range" and len(n.iter.args) == 2]
-    if not cl:
-        raise AnchorMissing("client loop range(s, s + n) in the sub-task loop")
-    CL = cl[0]
-    s0, s1 = CL.iter.args
-    svar = u(s0)
-    ok = isinstance(s0, ast.Name) and rat_equal(s1, parse_expr(f"{svar} + {sub}.clients"))
-    chk.ob("O2.3", "client loop == range(s, s + sub_task.clients)", ok, CL, u(CL.iter))
-    adv = [n for n in SL.body if isinstance(n, ast.AugAssign) and u(n.target) == svar]
-    ok = len(adv) == 1 and isinstance(adv[0].op, ast.Add) and u(adv[0].value) == f"{sub}.clients" and SL.body.index(adv[0]) > SL.body.index(CL)
-    chk.ob("O2.3", "s += sub_task.clients after the client loop (same count)", ok, adv[0] if adv else SL, short(adv[0], 50) if adv else "")
-    inits = [n for n in L.body if isinstance(n, ast.Assign) and u(n.targets[0]) == svar and source.is_const(n.value, 0)]
-    ok = len(inits) == 1 and L.body.index(inits[0]) < L.body.index(SL)
-    chk.ob("O2.3", "s starts at 0 for each schedule element", ok, inits[0] if inits else L, "")
-    tac = [n for n in ast.walk(CL) if isinstance(n, ast.Call) and last_attr(n.func) == "TaskAllocation"]
-    if not tac:
-        raise AnchorMissing("TaskAllocation(...) in the client loop")
-    ta_init = drv.methods(drv.cls("TaskAllocation"))["__init__"]
-    bd = source.bind_args(tac[0], ta_init)
-    i = CL.target.id
-    chk.ob("O2.3", "task := the sub-task", u(bd.get("task")) == sub, tac[0], "")
-    chk.ob("O2.3", "task-local client index == i - s", bd.get("client_index_in_task") is not None and rat_equal(bd["client_index_in_task"], parse_expr(f"{i} - {svar}")), tac[0], u(bd.get("client_index_in_task")))
-    chk.ob("O2.3", "global client index == i", u(bd.get("global_client_index")) == i, tac[0], "")
-    chk.ob("O2.3", "total clients == the element's client count", u(bd.get("total_clients")) == f"{elem}.clients", tac[0], "")
+    i_txt = inline(A.arg("global"), A.cdefs) if A.arg("global") is not None else A.loopvar
+    dividends = [d.left if d is not None else raw for _, d, raw in row_mods if (d is not None or raw is not None)]
+    try:
+        ok, w = A.holds_all(lambda c: len(A.iterations(*c)) == c[1] and all(A.series(dv, c) == list(range(c[0], c[0] + c[1])) for dv in dividends))
+        detail = u(CL.iter) + ("" if ok else f": {len(A.iterations(*w))} iteration(s), row dividend(s) {[A.series(dv, w) for dv in dividends]} for a {_case_txt(w)}")
+        chk.ob("O2.3", "client loop == range(s, s + sub_task.clients)", ok, CL, detail)
+    except me.CannotEval as x:
+        chk.unknown("O2.3", f"client loop `{u(CL.iter)}` cannot be evaluated on representative values ({x})", CL)
+    adv_ok, adv_detail = _offset_advance(A)
+    if adv_ok is None:
+        chk.unknown("O2.3", adv_detail, SL)
+    else:
+        chk.ob("O2.3", "s += sub_task.clients after the client loop (same count)", adv_ok, A.advances[0] if A.advances else SL, adv_detail)
+    ini = _offset_init(A)
+    chk.ob("O2.3", "s starts at 0 for each schedule element", ini is not None, ini if ini is not None else L, "" if ini is not None else f"no `{svar} = 0` in the per-element block before the sub-task loop")
+    tk, loc, gl, tot = A.arg("task"), A.arg("local"), A.arg("global"), A.arg("total")
+    if None in (tk, loc, gl, tot):
+        raise AnchorMissing("arguments of TaskAllocation(...) in the client loop")
+    chk.ob("O2.3", "task := the sub-task", inline(tk, A.cdefs) == sub, A.tac, f"task = {u(tk)}")
+    try:
+        ok, w = A.holds_all(lambda c: [lv - (gv - c[0]) for lv, gv in zip(A.series(loc, c), A.series(gl, c))] == [0] * len(A.iterations(*c)) and A.series(loc, c) == list(range(len(A.iterations(*c)))))
+        chk.ob("O2.3", "task-local client index == i - s", ok, A.tac, u(loc) + ("" if ok else f" = {A.series(loc, w)} where the element-wide indices are {A.series(gl, w)} for a {_case_txt(w)}"))
+        ok, w = A.holds_all(lambda c: A.series(gl, c) == list(range(c[0], c[0] + len(A.iterations(*c)))))
+        chk.ob("O2.3", "global client index == i", ok, A.tac, u(gl) + ("" if ok else f" = {A.series(gl, w)} for a {_case_txt(w)}"))
+        ok, w = A.holds_all(lambda c: all(v == c[2] for v in A.series(tot, c)))
+        chk.ob("O2.3", "total clients == the element's client count", ok, A.tac, u(tot) + ("" if ok else f" = {A.series(tot, w)} for a {_case_txt(w)}"))
+    except me.CannotEval as x:
+        chk.unknown("O2.3", f"arguments of `{short(A.tac, 60)}` cannot be evaluated over the client loop ({x})", A.tac)
     from rules.C05 import partition_call_rule
 
     partition_call_rule(chk, "O2.3", drv)
-    other_s = [n for n in ast.walk(SL) if isinstance(n, (ast.Assign, ast.AugAssign)) and u(n.targets[0] if isinstance(n, ast.Assign) else n.target) == svar and n not in adv]
+    other_s = [n for n in ast.walk(SL) if isinstance(n, (ast.Assign, ast.AugAssign)) and any(isinstance(x, ast.Name) and x.id == svar for t in (n.targets if isinstance(n, ast.Assign) else [n.target]) for x in ast.walk(t))
+               and not any(n is x for x in A.advances[:1])]
     chk.ob("O2.3", "s not written elsewhere inside the sub-task loop", not other_s, other_s[0] if other_s else SL, "")
 
     # ---- O2.7 completing clients / widest element ----------------------------------------------------------------------------------------------------
     chk.rule("O2.7", "the clients recorded on a join point as executing the completing task (or an `any` task) are the PHYSICAL row indices of exactly those sub-tasks; the row count is the "
              "maximum client count over all schedule elements (at least 1)", 4,
              "completed-by waits for the wrong clients (over-committed element), or the matrix has fewer rows than the widest element")
-    rec = []
-    for n in ast.walk(CL):
-        if isinstance(n, ast.Call) and last_attr(n.func) == "append" and isinstance(n.func, ast.Attribute) and isinstance(n.func.value, ast.Name) and n.func.value.id != matrix and n.args:
-            rec.append(n)
-    jpc = [n for n in ast.walk(L) if isinstance(n, ast.Call) and last_attr(n.func) == "JoinPoint"]
-    jpa = [u(a) for a in jpc[0].args[1:3]] if jpc else []
-    physd = None
-    for n in ast.walk(CL):
-        if isinstance(n, ast.Assign) and isinstance(n.value, ast.BinOp) and isinstance(n.value.op, ast.Mod) and isinstance(n.targets[0], ast.Name):
-            physd = n.targets[0].id
-    flags = {}
-    for r_ in rec:
-        gs_ = guards(r_, stop=CL)
-        flag = [u(t) for t, pol in gs_ if pol]
-        flags[u(r_.func.value)] = (flag, u(r_.args[0]))
-    ok = len(jpa) == 2 and jpa[0] in flags and jpa[1] in flags and flags[jpa[0]][0] == [f"{sub}.completes_parent"] and f"{sub}.any_completes_parent" in flags[jpa[1]][0] \
-        and flags[jpa[0]][1] == physd and flags[jpa[1]][1] == physd
-    chk.ob("O2.7", "completing / any-completing clients recorded by physical index under the sub-task's own flag", ok, rec[0] if rec else CL, f"{flags}")
+    jp, jlists = _joinpoint_lists(A)
+    row_idx = [a.func.value.slice for a, _, _ in row_mods]
+    recs = []
+    for lst in jlists:
+        r_ = [n for n in ast.walk(CL) if isinstance(n, ast.Call) and last_attr(n.func) == "append" and isinstance(n.func, ast.Attribute) and u(n.func.value) == u(lst) and len(n.args) == 1]
+        if not r_:
+            raise AnchorMissing(f"append to the join-point client list `{u(lst)}` inside the client loop")
+        recs.append(r_)
+    try:
+        problems = []
+        for k, r_ in enumerate(recs):
+            for app in r_:
+                # recorded value == the row the allocation is appended to
+                okv, w = A.holds_all(lambda c: all(A.series(app.args[0], c) == A.series(ri, c) for ri in row_idx))
+                if not okv:
+                    problems.append(f"`{short(app, 60)}` records {A.series(app.args[0], w)} where the rows are {A.series(row_idx[0], w)} for a {_case_txt(w)}")
+            # recorded under the sub-task's own flag
+            for cp, acp in ((True, False), (False, True), (False, False), (True, True)):
+                its = A.iterations(2, 1, 4, 6, flags=(cp, acp))
+                if not its:
+                    raise me.CannotEval("the client loop does not run for a sub-task with one client")
+                env = its[0]
+                hit = sum(1 for app in r_ if all(bool(A.value(t, env)) == pol for t, pol in guards(app, stop=CL, path_sensitive=True)))
+                want = (1 if cp else 0) if k == 0 else (None if (cp and acp) else (1 if acp else 0))
+                if want is not None and hit != want:
+                    problems.append(f"`{u(jlists[k])}` gets {hit} entr{'y' if hit == 1 else 'ies'} per client of a sub-task with completes_parent={cp}, any_completes_parent={acp} (expected {want})")
+        chk.ob("O2.7", "completing / any-completing clients recorded by physical index under the sub-task's own flag", not problems, recs[0][0], "; ".join(problems[:2]) or f"{[u(x) for x in jlists]}")
+    except me.CannotEval as x:
+        chk.unknown("O2.7", f"recording of the completing clients cannot be evaluated on representative values ({x})", recs[0][0])
     joinpoint_lists_reset(chk, "O2.7", drv)
     client_floor_rule(chk, "O2.7", drv)
 
@@ -409,131 +1016,284 @@ def run(chk):
              "min(ceil(n / hosts), remaining) and remaining -= that share; worker slots per host == its core count; per-host split is round-robin count[i % slots] += 1", 8,
              "client ids lost/duplicated or ids >= n handed out (e.g. 5 clients on 4 hosts), more than one worker per core, uneven worker loads")
     wa = drv.func("calculate_worker_assignments")
-    hosts_p, count_p = params_of(wa)
+    if len(params_of(wa)) < 2:
+        raise AnchorMissing("calculate_worker_assignments(<hosts>, <client count>)")
+    hosts_p, count_p = params_of(wa)[:2]
     wdefs = local_defs(wa)
-    ids = [n for n in walk_body(wa) if isinstance(n, ast.For) and isinstance(n.iter, ast.Call) and last_attr(n.iter.func) == "range" and len(n.iter.args) == 2
-           and any(isinstance(x, ast.Call) and last_attr(x.func) == "append" and u(x.args[0]) == (n.target.id if isinstance(n.target, ast.Name) else "") for x in ast.walk(n))]
-    if not ids:
-        raise AnchorMissing("id loop range(c, c + k) in calculate_worker_assignments")
-    IL = ids[0]
-    c0, c1 = IL.iter.args
-    cvar = u(c0)
-    kexpr = None
-    if isinstance(c1, ast.BinOp) and isinstance(c1.op, ast.Add):
-        kexpr = u(c1.right) if u(c1.left) == cvar else (u(c1.left) if u(c1.right) == cvar else None)
-    chk.ob("O2.4", "ids from range(c, c + k)", kexpr is not None, IL, u(IL.iter))
-    par = source.parent(IL)
-    sibs = par.body if hasattr(par, "body") else []
-    adv = [n for n in sibs if isinstance(n, ast.AugAssign) and u(n.target) == cvar]
-    ok = len(adv) == 1 and isinstance(adv[0].op, ast.Add) and u(adv[0].value) == kexpr and sibs.index(adv[0]) > sibs.index(IL)
-    chk.ob("O2.4", "c += k after the id loop (same k)", ok, adv[0] if adv else IL, "")
-    cw = [n for n in walk_body(wa) if isinstance(n, (ast.Assign, ast.AugAssign)) and u(n.targets[0] if isinstance(n, ast.Assign) else n.target) == cvar]
-    ok = len(cw) == 2 and any(isinstance(n, ast.Assign) and source.is_const(n.value, 0) and source.parent(n) is wa for n in cw)
-    chk.ob("O2.4", "c starts at 0, no other writer", ok, cw[0] if cw else wa, f"{len(cw)} writer(s)")
-    ok = not guards(IL, stop=source.enclosing(IL, ast.For)) and len(IL.body) == 1
-    chk.ob("O2.4", "every id in the range is assigned (no filter)", ok, IL, "")
-    # k iterates the per-worker counts
+    # the id site: `for i in range(c, c + k): <list>.append(i)` or the same list built in one expression (list(range(c, c + k)), [*range(..)], [i for i in range(..)])
+    sites = []
+    for n in walk_body(wa):
+        if isinstance(n, ast.For) and isinstance(n.iter, ast.Call) and dotted(n.iter.func) == "range" and len(n.iter.args) == 2 and isinstance(n.target, ast.Name):
+            app = [x for x in ast.walk(n) if isinstance(x, ast.Call) and last_attr(x.func) == "append" and len(x.args) == 1 and u(x.args[0]) == n.target.id]
+            if app:
+                unfiltered = not guards(app[0], stop=n, path_sensitive=True) and not any(isinstance(x, (ast.Break, ast.Continue, ast.Return)) for x in ast.walk(n)) and not n.orelse
+                sites.append((n, n.iter, unfiltered))
+        elif isinstance(n, ast.Call) and dotted(n.func) == "range" and len(n.args) == 2 and not n.keywords:
+            p = source.parent(n)
+            if isinstance(p, ast.Call) and dotted(p.func) in ("list", "tuple", "sorted") and len(p.args) == 1:
+                sites.append((source.enclosing_stmt(n), n, True))
+            elif isinstance(p, ast.Starred) and isinstance(source.parent(p), (ast.List, ast.Tuple)) and len(source.parent(p).elts) == 1:
+                sites.append((source.enclosing_stmt(n), n, True))
+            elif isinstance(p, ast.comprehension) and isinstance(source.parent(p), ast.ListComp) and len(source.parent(p).generators) == 1:
+                sites.append((source.enclosing_stmt(n), n, not p.ifs and u(source.parent(p).elt) == u(p.target)))
+    if not sites:
+        raise AnchorMissing("client ids `range(c, c + k)` (loop or list expression) in calculate_worker_assignments")
+    IL, rng, unfiltered = sites[0]
+    c0, c1 = rng.args
+    if not isinstance(c0, ast.Name):
+        raise AnchorMissing(f"running client id counter: the ids `{u(rng)}` do not start at a local")
+    cvar = c0.id
     kl = source.enclosing(IL, ast.For)
-    ok = kl is not None and isinstance(kl.target, ast.Name) and kl.target.id == kexpr
-    cpw = u(kl.iter) if kl is not None else None
-    chk.ob("O2.4", "k ranges over the per-worker client counts", ok, kl if kl is not None else IL, f"for {kexpr} in {cpw}")
+    kname = kiter = None
+    if kl is not None:
+        kt, kiter = kl.target, kl.iter
+        if isinstance(kiter, ast.Call) and dotted(kiter.func) == "enumerate" and len(kiter.args) == 1 and isinstance(kt, ast.Tuple) and len(kt.elts) == 2:
+            kt, kiter = kt.elts[1], kiter.args[0]
+        kname = kt.id if isinstance(kt, ast.Name) else None
+    if kname is None or not isinstance(kiter, ast.Name):
+        raise AnchorMissing("loop over the per-worker client counts (a local list) around the id site")
+    ck_cases = [(0, 0), (0, 3), (4, 1), (7, 2)]
+
+    def ck(expr, c, k):
+        return _ev(inline_node(expr, wdefs), {cvar: c, kname: k})
+
+    try:
+        bad = next(((c, k) for c, k in ck_cases if ck(c1, c, k) != c + k), None)
+        chk.ob("O2.4", "ids from range(c, c + k)", bad is None, IL, u(rng) + ("" if bad is None else f": with {cvar} = {bad[0]} and a worker with {bad[1]} client(s) the ids end before {ck(c1, *bad)} instead of {bad[0] + bad[1]}"))
+    except me.CannotEval as x:
+        chk.unknown("O2.4", f"upper bound of the client ids `{u(rng)}` cannot be evaluated from the id counter and the worker's client count `{kname}` ({x})", IL)
+    par = logical_parent(IL)
+    sibs = flat(par.body) if hasattr(par, "body") else []
+    pos = next((i for i, st in enumerate(sibs) if st is IL), None)
+    adv = [n for n in sibs if isinstance(n, (ast.AugAssign, ast.Assign)) and any(u(t) == cvar for t in ([n.target] if isinstance(n, ast.AugAssign) else n.targets))]
+    if len(adv) == 1 and pos is not None and [i for i, st in enumerate(sibs) if st is adv[0]][0] > pos and (isinstance(adv[0], ast.Assign) or isinstance(adv[0].op, ast.Add)):
+        try:
+            if isinstance(adv[0], ast.AugAssign):
+                bad = next(((c, k) for c, k in ck_cases if ck(adv[0].value, c, k) != k), None)
+            else:
+                bad = next(((c, k) for c, k in ck_cases if ck(adv[0].value, c, k) != c + k), None)
+            chk.ob("O2.4", "c += k after the id loop (same k)", bad is None, adv[0], short(adv[0], 50) + ("" if bad is None else f": after a worker with {bad[1]} client(s) the counter does not move on by {bad[1]}"))
+        except me.CannotEval as x:
+            chk.unknown("O2.4", f"`{short(adv[0], 50)}` cannot be evaluated from the id counter and the worker's client count ({x})", adv[0])
+    else:
+        chk.ob("O2.4", "c += k after the id loop (same k)", False, adv[0] if adv else IL,
+               f"{[short(n, 40) for n in adv]}" if adv else f"no statement after the id site (in the same block) advances `{cvar}`: every worker gets the same ids")
+    cw = [n for n in walk_body(wa) if isinstance(n, (ast.Assign, ast.AugAssign)) and any(u(t) == cvar for t in (n.targets if isinstance(n, ast.Assign) else [n.target]))]
+    ok = len(cw) == 2 and any(isinstance(n, ast.Assign) and source.is_const(n.value, 0) and logical_parent(n) is wa for n in cw)
+    chk.ob("O2.4", "c starts at 0, no other writer", ok, cw[0] if cw else wa, f"{len(cw)} writer(s)")
+    ok = unfiltered and not guards(IL, stop=kl, path_sensitive=True)
+    chk.ob("O2.4", "every id in the range is assigned (no filter)", ok, IL, "")
+    cpw = kiter.id
+    # the host loop and the values of one iteration
+    hl = hostvar = idxvar = None
+    for n in walk_body(wa):
+        if isinstance(n, ast.For) and any(x is kl for x in ast.walk(n)):
+            it, tg = n.iter, n.target
+            iv = None
+            if isinstance(it, ast.Call) and dotted(it.func) == "enumerate" and len(it.args) == 1 and not it.keywords and isinstance(tg, ast.Tuple) and len(tg.elts) == 2 and isinstance(tg.elts[0], ast.Name):
+                it, tg, iv = it.args[0], tg.elts[1], tg.elts[0].id
+            if u(it) == hosts_p and isinstance(tg, ast.Name):
+                hl, hostvar, idxvar = n, tg.id, iv
+                break
+    if hl is None:
+        raise AnchorMissing(f"loop over the hosts `{hosts_p}` around the worker loop in calculate_worker_assignments")
+    hdefs = {}
+    for n in ast.walk(hl):
+        if isinstance(n, ast.Assign) and len(n.targets) == 1 and isinstance(n.targets[0], ast.Name):
+            hdefs[n.targets[0].id] = n.value
+    alld = wdefs  # single-assignment locals only: a value inlined from them is the value at every use
+    # k iterates the per-worker counts of THIS host: the list is (re)built inside the host loop
+    ok = cpw in hdefs
+    chk.ob("O2.4", "k ranges over the per-worker client counts", ok, kl, f"for {kname} in {cpw}" + ("" if ok else f": `{cpw}` is not computed inside the loop over the hosts"))
+    hblk = flat(hl.body)
+    decs = [n for n in hblk if isinstance(n, ast.AugAssign) and isinstance(n.op, ast.Sub) and isinstance(n.target, ast.Name)]
+    rem = decs[0].target.id if len(decs) == 1 else None
+
+    def host_values(expr):
+        """[(case text, value, expected share, cores)] of expr for every host of every representative input, the remaining count following the model min(ceil(n / hosts), remaining)"""
+        tree = inline_node(expr, alld)
+        out = []
+        for n_, hosts in _host_cases():
+            left = n_
+            for i_, h in enumerate(hosts):
+                share_ = min(math.ceil(n_ / len(hosts)), left)
+                env = {hosts_p: hosts, count_p: n_, hostvar: h}
+                if idxvar:
+                    env[idxvar] = i_
+                if rem:
+                    env[rem] = left
+                out.append((f"host {i_ + 1} of {len(hosts)} ({h['cores']} cores), {n_} clients", _ev(tree, env), share_, h["cores"]))
+                left -= share_
+        return out
+
     # round robin
-    rr = [n for n in walk_body(wa) if isinstance(n, ast.AugAssign) and isinstance(n.target, ast.Subscript) and u(n.target.value) == cpw]
-    ok = False
-    slots = None
+    rr = [n for n in ast.walk(hl) if isinstance(n, ast.AugAssign) and isinstance(n.target, ast.Subscript) and u(n.target.value) == cpw]
+    slots = share = None
     if rr:
         sl = rr[0].target.slice
         lp = source.enclosing(rr[0], ast.For)
-        ok = isinstance(sl, ast.BinOp) and isinstance(sl.op, ast.Mod) and isinstance(lp.target, ast.Name) and u(sl.left) == lp.target.id and source.is_const(rr[0].value, 1) and isinstance(rr[0].op, ast.Add) \
-            and isinstance(lp.iter, ast.Call) and last_attr(lp.iter.func) == "range" and len(lp.iter.args) == 1 and not guards(rr[0], stop=lp)
-        slots = u(sl.right) if ok else None
-        share = u(lp.iter.args[0]) if ok else None
-    chk.ob("O2.4", "round-robin: count[i % slots] += 1 for i in range(share)", ok, rr[0] if rr else wa, "")
-    hl = [n for n in walk_body(wa) if isinstance(n, ast.For) and u(n.iter) == hosts_p]
-    hdefs = {}
-    if hl:
-        for n in ast.walk(hl[0]):
-            if isinstance(n, ast.Assign) and len(n.targets) == 1 and isinstance(n.targets[0], ast.Name):
-                hdefs[n.targets[0].id] = n.value
-    if slots:
-        sd = hdefs.get(slots)
-        ok = sd is not None and isinstance(sd, ast.Subscript) and source.is_const(sd.slice, "cores") and u(sd.value) == (hl[0].target.id if hl else "")
-        chk.ob("O2.4", "worker slots per host == the host's core count", ok, sd if sd is not None else wa, u(sd) if sd is not None else "")
+        ok = isinstance(sl, ast.BinOp) and isinstance(sl.op, ast.Mod) and lp is not None and isinstance(lp.target, ast.Name) and u(sl.left) == lp.target.id and source.is_const(rr[0].value, 1) \
+            and isinstance(rr[0].op, ast.Add) and _range_bound(lp.iter) is not None and not guards(rr[0], stop=lp, path_sensitive=True)
+        slots = sl.right if ok else None
+        share = _range_bound(lp.iter) if ok else None
+        chk.ob("O2.4", "round-robin: count[i % slots] += 1 for i in range(share)", ok, rr[0], short(rr[0], 60))
         cd = hdefs.get(cpw)
-        ok = cd is not None and isinstance(cd, ast.BinOp) and isinstance(cd.op, ast.Mult) and u(cd.right) == slots and isinstance(cd.left, ast.List) and source.is_const(cd.left.elts[0], 0)
-        chk.ob("O2.4", "one counter per worker slot", ok, cd if cd is not None else wa, "")
-        shd = hdefs.get(share)
-        ok = False
-        rem = None
-        if isinstance(shd, ast.Call) and dotted(shd.func) == "min" and len(shd.args) == 2:
-            a0, a1 = shd.args
-            per = [x for x in (a0, a1) if isinstance(x, ast.Name) and x.id in wdefs and isinstance(wdefs[x.id], ast.Call) and dotted(wdefs[x.id].func) == "math.ceil"]
-            remc = [x for x in (a0, a1) if x not in per]
-            if len(per) == 1 and len(remc) == 1 and isinstance(remc[0], ast.Name):
-                ce = wdefs[per[0].id].args[0]
-                ok = rat_equal(inline_node(ce, wdefs), parse_expr(f"{count_p} / len({hosts_p})"))
-                rem = remc[0].id
-        chk.ob("O2.4", "per-host share == min(ceil(n / hosts), remaining)", ok, shd if shd is not None else wa, u(shd) if shd is not None else "no min(...)")
-        if rem:
-            dec = [n for n in ast.walk(hl[0]) if isinstance(n, ast.AugAssign) and u(n.target) == rem]
-            ok = len(dec) == 1 and isinstance(dec[0].op, ast.Sub) and u(dec[0].value) == share
-            chk.ob("O2.4", "remaining -= share (the same amount that was assigned)", ok, dec[0] if dec else wa, "")
-            ri = [n for n in walk_body(wa) if isinstance(n, ast.Assign) and u(n.targets[0]) == rem]
-            ok = len(ri) == 1 and u(ri[0].value) == count_p
-            chk.ob("O2.4", "remaining starts at the client count", ok, ri[0] if ri else wa, "")
+        if slots is not None:
+            try:
+                bad = next((t for t in host_values(slots) if t[1] != t[3]), None)
+                chk.ob("O2.4", "worker slots per host == the host's core count", bad is None, slots, f"slots = {inline(slots, alld)}" + ("" if bad is None else f" = {bad[1]} for {bad[0]}"))
+            except me.CannotEval as x:
+                chk.unknown("O2.4", f"worker slots `{u(slots)}` cannot be evaluated for representative hosts ({x})", slots)
+            if cd is None:
+                chk.unknown("O2.4", f"definition of the per-worker counts `{cpw}` inside the host loop not recognised", hl)
+            else:
+                zero, cnt = (cd.left, cd.right) if isinstance(cd, ast.BinOp) and isinstance(cd.left, ast.List) else ((cd.right, cd.left) if isinstance(cd, ast.BinOp) and isinstance(cd.right, ast.List) else (None, None))
+                ok = isinstance(cd, ast.BinOp) and isinstance(cd.op, ast.Mult) and zero is not None and len(zero.elts) == 1 and source.is_const(zero.elts[0], 0) and inline(cnt, alld) == inline(slots, alld)
+                if not ok and isinstance(cd, ast.ListComp):
+                    try:
+                        ok = all(v == [0] * c_ for _, v, _, c_ in host_values(cd)) and inline(_range_bound(cd.generators[0].iter) or cd, alld) == inline(slots, alld)
+                    except me.CannotEval:
+                        ok = False
+                chk.ob("O2.4", "one counter per worker slot", ok, cd, short(cd, 60))
+    else:
+        # the per-worker counts computed in one expression: decided on values (share dealt round-robin over one slot per core)
+        cd = hdefs.get(cpw)
+        if cd is None:
+            raise AnchorMissing(f"per-worker client counts `{cpw}`: neither `{cpw}[i % slots] += 1` nor a definition inside the host loop")
+        try:
+            vals = host_values(cd)
+            bad = next((t for t in vals if not isinstance(t[1], list) or t[1] != _round_robin(t[2], t[3])), None)
+            bad_len = next((t for t in vals if not isinstance(t[1], list) or len(t[1]) != t[3]), None)
+            chk.ob("O2.4", "round-robin: count[i % slots] += 1 for i in range(share)", bad is None, cd,
+                   f"{cpw} = {short(cd, 60)}" + ("" if bad is None else f" = {bad[1]} for {bad[0]} (share {bad[2]}): expected {_round_robin(bad[2], bad[3])}"))
+            chk.ob("O2.4", "worker slots per host == the host's core count", bad_len is None, cd, "" if bad_len is None else f"{bad_len[1]} for {bad_len[0]}")
+            chk.ob("O2.4", "one counter per worker slot", bad_len is None, cd, "")
+        except me.CannotEval as x:
+            chk.unknown("O2.4", f"per-worker client counts `{cpw} = {short(cd, 50)}` cannot be evaluated for representative hosts ({x})", cd)
+    # per-host share: what is dealt out to the workers of a host (the round-robin bound) / taken off the remaining count
+    if rem is None:
+        chk.unknown("O2.4", f"the count of clients still to be placed (a local decreased once per host) is not recognised in the host loop ({[short(n, 40) for n in decs]})", hl)
+    else:
+        dec = decs[0]
+        share_e = share if share is not None else dec.value
+        try:
+            bad = next((t for t in host_values(share_e) if t[1] != t[2]), None)
+            chk.ob("O2.4", "per-host share == min(ceil(n / hosts), remaining)", bad is None, hdefs.get(u(share_e), share_e),
+                   f"share = {inline(share_e, alld)}" + ("" if bad is None else f" = {bad[1]} for {bad[0]}: expected {bad[2]}"))
+        except me.CannotEval as x:
+            chk.unknown("O2.4", f"per-host share `{inline(share_e, alld)}` cannot be evaluated for representative hosts ({x})", share_e)
+        ok = inline(dec.value, alld) == inline(share_e, alld)
+        chk.ob("O2.4", "remaining -= share (the same amount that was assigned)", ok, dec, short(dec, 60))
+        ri = [n for n in walk_body(wa) if isinstance(n, ast.Assign) and any(u(t) == rem for t in n.targets)]
+        ok = len(ri) == 1 and inline(ri[0].value, wdefs) == count_p and not any(x is hl for x in source.ancestors(ri[0]))
+        chk.ob("O2.4", "remaining starts at the client count", ok, ri[0] if ri else wa, short(ri[0], 50) if ri else f"`{rem}` is never initialised")
 
     # ---- O2.5 worker ids are positions -------------------------------------------------------------------------------------------------------------------
     chk.rule("O2.5", "the counter passed as worker id is incremented exactly on the paths that append to the worker list (ids == list positions); each client is recorded under that worker id", 3,
              "a host with more cores than clients: worker ids skip, the driver addresses the wrong arrival entry")
     D = drv.cls("Driver")
-    sb = drv.methods(D)["start_benchmark"]
-    apps = [n for n in walk_body(sb) if isinstance(n, ast.Call) and u(n.func) == "self.workers.append"]
-    incs = [n for n in walk_body(sb) if isinstance(n, ast.AugAssign) and isinstance(n.target, ast.Name) and source.is_const(n.value, 1)]
-    ok = len(apps) == 1 and len(incs) == 1 and source.parent(source.enclosing_stmt(apps[0])) is source.parent(incs[0])
-    wid = incs[0].target.id if incs else None
-    chk.ob("O2.5", "worker id += 1 in the same block as workers.append", ok, incs[0] if incs else sb, "")
-    wi = [n for n in walk_body(sb) if isinstance(n, ast.Assign) and u(n.targets[0]) == wid]
-    chk.ob("O2.5", "worker id starts at 0", len(wi) == 1 and source.is_const(wi[0].value, 0), wi[0] if wi else sb, "")
+    sb = drv.methods(D).get("start_benchmark")
+    if sb is None:
+        raise AnchorMissing("Driver.start_benchmark")
     cc = [n for n in walk_body(sb) if isinstance(n, ast.Call) and last_attr(n.func) == "create_client"]
-    chk.ob("O2.5", "the counter is the id given to the created worker", bool(cc) and u(cc[0].args[-1]) == wid, cc[0] if cc else sb, "")
-    cpw_ = [n for n in walk_body(sb) if isinstance(n, ast.Assign) and isinstance(n.targets[0], ast.Subscript) and is_self_attr(n.targets[0].value, "clients_per_worker")]
-    chk.ob("O2.5", "clients_per_worker[client] := this worker id", bool(cpw_) and u(cpw_[0].value) == wid, cpw_[0] if cpw_ else sb, "")
-    al = [n for n in walk_body(sb) if isinstance(n, ast.Call) and last_attr(n.func) == "add" and "client_allocations" in u(n.func)]
-    ok = bool(al) and len(al[0].args) == 2 and isinstance(al[0].args[1], ast.Subscript) and u(al[0].args[1].slice) == u(al[0].args[0])
-    chk.ob("O2.5", "each client gets its own matrix row", ok, al[0] if al else sb, "")
+    if not cc:
+        raise AnchorMissing("creation of a worker (`create_client(...)`) in Driver.start_benchmark")
+    # the worker list: the self attribute the created worker is appended to
+    created = {t.id for n in walk_body(sb) if isinstance(n, ast.Assign) and any(n.value is c for c in cc) for t in n.targets if isinstance(t, ast.Name)}
+    apps = [n for n in walk_body(sb) if isinstance(n, ast.Call) and last_attr(n.func) == "append" and isinstance(n.func, ast.Attribute) and is_self_attr(n.func.value) and len(n.args) == 1
+            and (u(n.args[0]) in created or any(n.args[0] is c for c in cc))]
+    if not apps:
+        raise AnchorMissing("append of the created worker to a list attribute of the driver in start_benchmark")
+    # the id counter: a local advanced by one in start_benchmark; of several the one handed to create_client
+    counters = sorted({n.target.id for n in walk_body(sb) if isinstance(n, ast.AugAssign) and isinstance(n.op, ast.Add) and isinstance(n.target, ast.Name) and source.is_const(n.value, 1)})
+    cc_args = {u(a) for a in list(cc[0].args) + [k.value for k in cc[0].keywords]}
+    wid = next((c for c in counters if c in cc_args), counters[0] if len(counters) == 1 else None)
+    if wid is None:
+        raise AnchorMissing(f"worker id counter (a local advanced by 1) in start_benchmark; candidates {counters}")
+    incs = [n for n in walk_body(sb) if isinstance(n, ast.AugAssign) and isinstance(n.target, ast.Name) and n.target.id == wid]
+    ok = len(apps) == 1 and len(incs) == 1 and isinstance(incs[0].op, ast.Add) and source.is_const(incs[0].value, 1) and logical_parent(source.enclosing_stmt(apps[0])) is logical_parent(incs[0])
+    chk.ob("O2.5", "worker id += 1 in the same block as workers.append", ok, incs[0], "")
+    wi = [n for n in walk_body(sb) if isinstance(n, ast.Assign) and any(u(t) == wid for t in n.targets)]
+    chk.ob("O2.5", "worker id starts at 0", len(wi) == 1 and source.is_const(wi[0].value, 0), wi[0] if wi else sb, "")
+    chk.ob("O2.5", "the counter is the id given to the created worker", wid in cc_args, cc[0], short(cc[0], 70))
+    # each client is recorded under the worker id: the dict attribute keyed by the client of the client loop
+    cl_loops = [n for n in walk_body(sb) if isinstance(n, ast.For) and isinstance(n.target, ast.Name) and any(x is incs[0] for x in ast.walk(logical_parent(n)))
+                and any(isinstance(x, ast.Call) and last_attr(x.func) == "add" for x in ast.walk(n))]
+    al = [x for n in cl_loops for x in ast.walk(n) if isinstance(x, ast.Call) and last_attr(x.func) == "add" and len(x.args) == 2 and u(x.args[0]) == n.target.id]
+    if not al:
+        raise AnchorMissing("`<client allocations>.add(<client>, <row>)` in the client loop of start_benchmark")
+    clv = u(al[0].args[0])
+    # `self.<dict>[<client>] = <a counter>` in the client loop (by name as a fall-back, so that a wrong value is reported and not just 'not found')
+    in_loop = [n for n in ast.walk(source.enclosing(al[0], ast.For)) if isinstance(n, ast.Assign) and len(n.targets) == 1 and isinstance(n.targets[0], ast.Subscript) and is_self_attr(n.targets[0].value)]
+    cpw_ = [n for n in in_loop if u(n.targets[0].slice) == clv and isinstance(n.value, ast.Name) and n.value.id in counters] or [n for n in in_loop if n.targets[0].value.attr == "clients_per_worker"]
+    if not cpw_:
+        chk.unknown("O2.5", "no `self.<clients per worker>[<client>] = <worker id>` in the client loop of start_benchmark", al[0])
+    else:
+        chk.ob("O2.5", "clients_per_worker[client] := this worker id", u(cpw_[0].value) == wid and u(cpw_[0].targets[0].slice) == clv, cpw_[0], short(cpw_[0], 60))
+    # the matrix attribute of the driver: assigned from the allocator's builder property
+    mattr = {t.attr for n in walk_body(sb) if isinstance(n, ast.Assign) and isinstance(n.value, ast.Attribute) and n.value.attr == b.name for t in n.targets if is_self_attr(t)}
+    row = al[0].args[1]
+    ok = isinstance(row, ast.Subscript) and u(row.slice) == clv and (not mattr or (is_self_attr(row.value) and row.value.attr in mattr))
+    chk.ob("O2.5", "each client gets its own matrix row", ok, al[0], short(al[0], 70))
 
     # ---- O2.6 parallel client count --------------------------------------------------------------------------------------------------------------------
     chk.rule("O2.6", "a parallel element's client count is the explicit value when not None, else the sum over its CURRENT sub-tasks (computed on demand, not cached at construction)", 2,
              "filters remove sub-tasks of an uncapped parallel element: stale client count creates clients without tasks")
     PA = trk.cls("Parallel")
     pc = trk.methods(PA).get("clients")
-    ok = False
-    detail = ""
-    if pc is not None:
-        rets = [n for n in walk_body(pc) if isinstance(n, ast.Return)]
-        expl = [r for r in rets if is_self_attr(r.value) and holds(r, f"{u(r.value)} is not None")]
-        reads_tasks = any(is_self_attr(n, "tasks") for n in walk_body(pc))
-        sums = [n for n in walk_body(pc) if (isinstance(n, ast.AugAssign) and u(n.value).endswith(".clients")) or (isinstance(n, ast.Call) and dotted(n.func) == "sum")]
-        ok = bool(expl) and reads_tasks and bool(sums)
-        detail = f"explicit-return={bool(expl)} reads self.tasks={reads_tasks} sums={bool(sums)}"
-    chk.ob("O2.6", "Parallel.clients == explicit value or sum over current sub-tasks", ok, pc if pc is not None else PA, detail)
     pinit = trk.methods(PA).get("__init__")
-    cached = [n for n in walk_body(pinit) if isinstance(n, (ast.Assign, ast.AugAssign)) and any(isinstance(x, ast.Attribute) and x.attr == "clients" and not is_self_attr(x) for x in ast.walk(n.value))]
-    chk.ob("O2.6", "no client sum cached at construction", not cached, cached[0] if cached else pinit, "")
+    if pc is None or pinit is None:
+        raise AnchorMissing("Parallel.clients / Parallel.__init__")
+    # roles of the constructor parameters by position: (tasks, explicit client count); the attributes they reach are found by evaluating the constructor's attribute stores
+    pp = params_of(pinit)[1:3]
+    if len(pp) < 2:
+        raise AnchorMissing("Parallel.__init__(self, tasks, clients)")
+    ctor_stores = [n for n in walk_body(pinit) if isinstance(n, ast.Assign) and len(n.targets) == 1 and is_self_attr(n.targets[0])]
+    expl_attrs = [n.targets[0].attr for n in ctor_stores if any(isinstance(x, ast.Name) and x.id == pp[1] for x in ast.walk(n.value))]
+    if not expl_attrs:
+        raise AnchorMissing(f"attribute of Parallel that keeps the explicit client count (constructor parameter `{pp[1]}`)")
+    expl_attr = expl_attrs[0]
+
+    def par_clients(explicit, counts, stale=None):
+        """Parallel.clients for an element constructed with `explicit` and sub-tasks with `stale or counts` clients that has the sub-tasks `counts` NOW (an attribute computed at
+        construction keeps the value it got from the sub-tasks of that time; the attribute holding the task list itself follows the removal)"""
+        at_ctor = [me.Record(clients=c) for c in (stale if stale is not None else counts)]
+        fields = {}
+        for n in ctor_stores:
+            try:
+                fields[n.targets[0].attr] = _ev(n.value, {pp[0]: at_ctor, pp[1]: explicit, "self": me.Record(**fields)})
+            except me.CannotEval:
+                fields.pop(n.targets[0].attr, None)
+        live = [k_ for k_, v in fields.items() if v is at_ctor]
+        if not live:
+            raise me.CannotEval("no attribute of Parallel holds the list of sub-tasks given to the constructor")
+        for k_ in live:
+            fields[k_] = [me.Record(clients=c) for c in counts]
+        return _call_value(pc, {"self": me.Record(**fields)})
+
+    try:
+        cases = [((None, [1, 2]), 3), ((None, []), 0), ((2, [1, 2, 3]), 2), ((0, [1]), 0), ((5, [1]), 5)]
+        bad = next(((a_, want, par_clients(*a_)) for a_, want in cases if par_clients(*a_) != want), None)
+        chk.ob("O2.6", "Parallel.clients == explicit value or sum over current sub-tasks", bad is None, pc,
+               "evaluated for (explicit, sub-task clients) " + ", ".join(f"{a_} -> {w_}" for a_, w_ in cases[:3]) if bad is None else
+               f"explicit client count {bad[0][0]}, sub-tasks with {bad[0][1]} client(s): {bad[2]} instead of {bad[1]}")
+        # computed on demand: sub-tasks removed after construction (filters) are not counted any more
+        got = par_clients(None, [1], stale=[1, 2, 4])
+        chk.ob("O2.6", "no client sum cached at construction", got == 1, pinit, "" if got == 1 else f"an uncapped element built with sub-tasks of [1, 2, 4] clients of which only [1] is left reports {got} client(s)")
+    except me.CannotEval as x:
+        chk.unknown("O2.6", f"Parallel.clients cannot be evaluated on representative elements ({x})", pc)
     # the explicit value is the one given at construction: no method of the class (or anything else in the package) rewrites it
-    expl_attr = u(expl[0].value).split(".", 1)[1] if pc is not None and expl else None
-    if expl_attr:
-        wr = []
-        for m_ in repo.all_modules():
-            for n in ast.walk(m_.tree):
-                tg = n.targets if isinstance(n, ast.Assign) else ([n.target] if isinstance(n, (ast.AugAssign, ast.AnnAssign)) else [])
-                for t in tg:
-                    for x in ast.walk(t):
-                        if isinstance(x, ast.Attribute) and x.attr == expl_attr and isinstance(x.ctx, ast.Store):
-                            wr.append((m_, n))
-        bad = [(m_, n) for m_, n in wr if not (source.enclosing_func(n) is pinit)]
-        chk.ob("O2.6", f"the explicit client count (`{expl_attr}`) is written only at construction", bool(wr) and not bad, bad[0][1] if bad else pinit,
-               "" if not bad else f"rewritten in {bad[0][0].relpath}:{source.qualname(bad[0][1])}: `{short(bad[0][1], 60)}`", key=f"esrally/track/track.py:Parallel:{expl_attr}:writers")
+    wr = []
+    for m_ in repo.all_modules():
+        for n in ast.walk(m_.tree):
+            tg = n.targets if isinstance(n, ast.Assign) else ([n.target] if isinstance(n, (ast.AugAssign, ast.AnnAssign)) else [])
+            for t in tg:
+                for x in ast.walk(t):
+                    if isinstance(x, ast.Attribute) and x.attr == expl_attr and isinstance(x.ctx, ast.Store):
+                        wr.append((m_, n))
+    bad = [(m_, n) for m_, n in wr if not (source.enclosing_func(n) is pinit)]
+    chk.ob("O2.6", f"the explicit client count (`{expl_attr}`) is written only at construction", not bad, bad[0][1] if bad else pinit,
+           "" if not bad else f"rewritten in {bad[0][0].relpath}:{source.qualname(bad[0][1])}: `{short(bad[0][1], 60)}`", key=f"esrally/track/track.py:Parallel:{expl_attr}:writers")
 
     # ---- O2.8 an element occupies only its own clients (F45) -----------------------------------------------------------------------------------------
     chk.rule("O2.8", "a schedule element occupies exactly the clients it requests: the matrix row of an element-wide client index is that index modulo the ELEMENT's own client count "
@@ -541,7 +1301,6 @@ def run(chk):
              "cap of a parallel element that happens to be the widest element of the schedule", 2,
              "a parallel element that caps its clients (`clients: N` below the sum of its sub-tasks' clients) next to a wider schedule element: its sub-tasks are spread over up to "
              "<row count> clients and run concurrently instead of in rounds of N (more load than requested; total_clients / ramp-up still computed from N)")
-    from sa import minieval as _me
 
     def _first_other(vals):
         # a witness (e, R, value) with value != e; the capped pair of the item (2 clients next to a 4-client element) is shown when it is one
@@ -552,15 +1311,15 @@ def run(chk):
     for k_, (a, d, raw) in enumerate(row_mods):
         key_ = f"{_D}:Allocator.allocations:element-modulus" + ("" if k_ == 0 else f":{k_}")
         if d is None:
-            if isinstance(raw, ast.Name) and raw.id == i:
+            if raw is not None and inline(raw, A.cdefs) == i_txt:
                 # the logical (element-wide) index itself: the element is spread over as many rows as its sub-tasks have clients in total
-                chk.ob("O2.8", "the row of a client wraps at the element's own client count", False, a, f"row index `{u(a.func.value.slice)}` is the unreduced element-wide client index `{i}`", key=key_)
+                chk.ob("O2.8", "the row of a client wraps at the element's own client count", False, a, f"row index `{u(a.func.value.slice)}` is the unreduced element-wide client index `{i_txt}`", key=key_)
             else:
                 chk.unknown("O2.8", f"row index `{u(a.func.value.slice)}` = `{u(raw) if raw is not None else '?'}` is not of the form `<client index> % <bound>`", a)
             continue
         try:
-            txt, vals = _bound_values(d.right, defs, rows_texts, elem)
-        except _me.CannotEval as x:
+            txt, vals = _bound_values(d.right, A)
+        except me.CannotEval as x:
             chk.unknown("O2.8", f"modulus `{u(d.right)}` of the row subscript is not an expression over the row count and `{elem}.clients` ({x})", d)
             continue
         w = _first_other(vals)
@@ -569,14 +1328,12 @@ def run(chk):
                                                     f"i.e. is spread over up to {w[2]} clients instead of {w[0]}"), key=key_)
     # every other wrap / round computation on the element's client indices (modulus, divisor) inside the per-element loop: the None padding
     taken = {id(d) for _, d, _ in row_mods if d is not None}
-    idx_names = {svar, i}
-    bounds = [n for n in ast.walk(L) if isinstance(n, ast.BinOp) and isinstance(n.op, (ast.Mod, ast.Div, ast.FloorDiv)) and id(n) not in taken
-              and idx_names & {x.id for x in ast.walk(inline_node(n.left, defs)) if isinstance(x, ast.Name)}]
+    bounds = [(n, right) for n, _, right in wraps if id(n) not in taken]
     wrong, undecided = [], []
-    for n in bounds:
+    for n, right in bounds:
         try:
-            txt, vals = _bound_values(n.right, defs, rows_texts, elem)
-        except _me.CannotEval as x:
+            txt, vals = _bound_values(right, A)
+        except me.CannotEval as x:
             undecided.append((n, str(x)))
             continue
         w = _first_other(vals)
@@ -585,14 +1342,32 @@ def run(chk):
     if undecided:
         chk.unknown("O2.8", f"padding bound `{u(undecided[0][0])}` is not an expression over the row count and `{elem}.clients` ({undecided[0][1]})", undecided[0][0])
     if wrong or not undecided:
-        chk.ob("O2.8", "the None padding completes rounds of the element's own client count", not wrong, wrong[0][0] if wrong else (bounds[0] if bounds else L),
-               (f"{len(bounds)} wrap bound(s) on the element's client total outside the row subscript: {sorted({u(n) for n in bounds})}" if not wrong else
+        chk.ob("O2.8", "the None padding completes rounds of the element's own client count", not wrong, wrong[0][0] if wrong else (bounds[0][0] if bounds else L),
+               (f"{len(bounds)} wrap bound(s) on the element's client total outside the row subscript: {sorted({u(n) for n, _ in bounds})}" if not wrong else
                 f"`{u(wrong[0][0])}` wraps at {wrong[0][1]}: for an element with {wrong[0][2][0]} client(s) in a schedule whose widest element has {wrong[0][2][1]} the bound is "
                 f"{wrong[0][2][2]}; {len(wrong)} of {len(bounds)} bound(s) differ from the element's client count"),
                key=f"{_D}:Allocator.allocations:element-padding-bound")
 
 
 from sa.selftest import V  # noqa: E402
+
+_MATRIX_OLD = "        allocations = [None] * max_clients\n        for client_index in range(max_clients):\n            allocations[client_index] = []\n"
+_TP_LOOPS_OLD = "        for idx in range(0, len(allocs[0])):\n            for client in range(0, self.clients):\n                allocation = allocs[client][idx]\n"
+_TP_TEST_OLD = ("                if isinstance(allocation, TaskAllocation):\n                    current_tasks.add(allocation.task)\n"
+                "                elif isinstance(allocation, JoinPoint) and client == 0 and idx > 0:\n")
+_CL_OLD = "                for client_index in range(start_client_index, start_client_index + sub_task.clients):\n"
+_CL_NEW = "                for client_index_in_task in range(sub_task.clients):\n                    client_index = start_client_index + client_index_in_task\n"
+_IDS_OLD = ("            worker_assignment = []\n            assignment[\"workers\"].append(worker_assignment)\n"
+            "            for c in range(client_idx, client_idx + client_count_for_worker):\n                worker_assignment.append(c)\n")
+_CLIENTS_OLD = "        max_clients = 1\n        for task in self.schedule:\n            max_clients = max(max_clients, task.clients)\n        return max_clients\n"
+_PAD_OLD = ("            if start_client_index % max_clients > 0:\n                # pin the index range to [0, max_clients). This simplifies the code below.\n"
+            "                start_client_index = start_client_index % max_clients\n                for client_index in range(start_client_index, max_clients):\n"
+            "                    allocations[client_index].append(None)\n")
+_JP_HEAD = "    @property\n    def join_points(self):\n"
+_PAD_HELPER = ("    @staticmethod\n    def _fill_idle_clients(allocations, allocated_slots):\n        max_clients = len(allocations)\n        first_idle_client = allocated_slots % max_clients\n"
+               "        if first_idle_client > 0:\n            for client_index in range(first_idle_client, max_clients):\n                allocations[client_index].append(None)\n\n")
+_PAR_OLD = ("        if self._clients is not None:\n            return self._clients\n        else:\n            num_clients = 0\n            for task in self.tasks:\n"
+            "                num_clients += task.clients\n            return num_clients\n")
 
 VARIANTS = [
     V("F2: entries skip empty elements", "break", _D, "                elif isinstance(allocation, JoinPoint) and client == 0 and idx > 0:", "                elif isinstance(allocation, JoinPoint) and len(current_tasks) > 0:", "O2.1"),
@@ -616,4 +1391,60 @@ VARIANTS = [
       "                if isinstance(allocation, TaskAllocation):\n                    current_tasks.add(allocation.task)\n                elif isinstance(allocation, JoinPoint) and client == 0 and idx > 0:\n                    # one entry per join point (except for the initial one), also if the schedule element before it is empty\n                    tasks.append(current_tasks)\n                    current_tasks = set()\n",
       "                if isinstance(allocation, TaskAllocation):\n                    current_tasks.add(allocation.task)\n            if isinstance(allocs[0][idx], JoinPoint) and idx > 0:\n                tasks.append(current_tasks)\n                current_tasks = set()\n"),
     V("sum() in Parallel.clients", "keep", _T, "            num_clients = 0\n            for task in self.tasks:\n                num_clients += task.clients\n            return num_clients", "            return sum(task.clients for task in self.tasks)"),
+    # ---- hardening round 2: refactored shapes (benign/C01-b3, C02-b1, C02-b3, C11-b4) and the same shapes with a defect inside ----
+    V("h2 keep (C02-b3): matrix rows from a comprehension", "keep", _D, _MATRIX_OLD, "        allocations = [[] for _ in range(max_clients)]\n"),
+    V("h2 break: one list object repeated for every row", "break", _D, _MATRIX_OLD, "        allocations = [[]] * max_clients\n", "O2.2"),
+    V("h2 keep (C11-b4): columns walked with enumerate(zip(*allocs))", "keep", _D, _TP_LOOPS_OLD,
+      "        for idx, allocations_at_idx in enumerate(zip(*allocs)):\n            for client, allocation in enumerate(allocations_at_idx):\n"),
+    V("h2 break: enumerate(zip(*allocs)) with row and column index swapped", "break", _D, _TP_LOOPS_OLD,
+      "        for client, allocations_at_idx in enumerate(zip(*allocs)):\n            for idx, allocation in enumerate(allocations_at_idx):\n", "O2.1"),
+    V("h2 break: enumerate(zip(*allocs)), entries start at the third column", "break", _D, _TP_LOOPS_OLD + _TP_TEST_OLD,
+      "        for idx, allocations_at_idx in enumerate(zip(*allocs)):\n            for client, allocation in enumerate(allocations_at_idx):\n" + _TP_TEST_OLD.replace("idx > 0", "idx > 1"), "O2.1"),
+    V("h2 keep: entry emission behind guard clauses", "keep", _D, _TP_TEST_OLD + "                    # one entry per join point (except for the initial one), also if the schedule element before it is empty\n"
+      "                    tasks.append(current_tasks)\n                    current_tasks = set()\n",
+      "                if isinstance(allocation, TaskAllocation):\n                    current_tasks.add(allocation.task)\n                    continue\n"
+      "                if not isinstance(allocation, JoinPoint) or client != 0 or idx == 0:\n                    continue\n"
+      "                tasks.append(current_tasks)\n                current_tasks = set()\n"),
+    V("h2 break: guard clauses, entry for every row", "break", _D, _TP_TEST_OLD + "                    # one entry per join point (except for the initial one), also if the schedule element before it is empty\n"
+      "                    tasks.append(current_tasks)\n                    current_tasks = set()\n",
+      "                if isinstance(allocation, TaskAllocation):\n                    current_tasks.add(allocation.task)\n                    continue\n"
+      "                if not isinstance(allocation, JoinPoint) or idx == 0:\n                    continue\n"
+      "                tasks.append(current_tasks)\n                current_tasks = set()\n", "O2.1"),
+    [V("h2 keep (C01-b3): client loop over the task-local index, total clients hoisted", "keep", _D, _CL_OLD, _CL_NEW),
+     V("", "keep", _D, "                        client_index_in_task=client_index - start_client_index,\n", "                        client_index_in_task=client_index_in_task,\n"),
+     V("", "keep", _D, "                        total_clients=task.clients,\n", "                        total_clients=total_clients,\n"),
+     V("", "keep", _D, "            any_task_completes_parent = []\n            for sub_task in task:\n", "            any_task_completes_parent = []\n            total_clients = task.clients\n            for sub_task in task:\n")],
+    [V("h2 break: client loop over the task-local index, global index without the offset", "break", _D, _CL_OLD, _CL_NEW, "O2.3"),
+     V("", "break", _D, "                        client_index_in_task=client_index - start_client_index,\n", "                        client_index_in_task=client_index_in_task,\n"),
+     V("", "break", _D, "                        global_client_index=client_index,\n", "                        global_client_index=client_index_in_task,\n")],
+    [V("h2 break: client loop over the task-local index, one client short", "break", _D, _CL_OLD, _CL_NEW.replace("range(sub_task.clients)", "range(1, sub_task.clients)"), "O2.3"),
+     V("", "break", _D, "                        client_index_in_task=client_index - start_client_index,\n", "                        client_index_in_task=client_index_in_task,\n")],
+    [V("h2 break: total clients hoisted out of the schedule loop (row count)", "break", _D, "                        total_clients=task.clients,\n", "                        total_clients=total_clients,\n", "O2.3"),
+     V("", "break", _D, "        join_point_id = 0\n        # start with an artificial join point", "        join_point_id = 0\n        total_clients = max_clients\n        # start with an artificial join point")],
+    V("h2 keep (C02-b3): worker ids as list(range(...))", "keep", _D, _IDS_OLD, "            assignment[\"workers\"].append(list(range(client_idx, client_idx + client_count_for_worker)))\n"),
+    V("h2 break: list(range(...)) one id too many", "break", _D, _IDS_OLD, "            assignment[\"workers\"].append(list(range(client_idx, client_idx + client_count_for_worker + 1)))\n", "O2.4"),
+    V("h2 break: list comprehension of ids with a filter", "break", _D, _IDS_OLD,
+      "            assignment[\"workers\"].append([c for c in range(client_idx, client_idx + client_count_for_worker) if c > 0])\n", "O2.4"),
+    V("h2 keep: id counter advanced through the end of the range", "keep", _D, _IDS_OLD + "            client_idx += client_count_for_worker\n",
+      "            next_client_idx = client_idx + client_count_for_worker\n            assignment[\"workers\"].append(list(range(client_idx, next_client_idx)))\n            client_idx = next_client_idx\n"),
+    V("h2 keep (C02-b3): row count as max([1] + [...])", "keep", _D, _CLIENTS_OLD, "        return max([1] + [task.clients for task in self.schedule])\n"),
+    V("h2 break: row count as max([0] + [...])", "break", _D, _CLIENTS_OLD, "        return max([0] + [task.clients for task in self.schedule])\n", "O2.7"),
+    V("h2 keep: row count as max(1, max(..., default=0))", "keep", _D, _CLIENTS_OLD, "        return max(1, max((task.clients for task in self.schedule), default=0))\n"),
+    V("h2 keep: row count as max over the non-empty elements with default=1", "keep", _D, _CLIENTS_OLD, "        return max((task.clients for task in self.schedule if task.clients), default=1)\n"),
+    V("h2 break: row count as max over the elements wider than one client, default=1", "break", _D, _CLIENTS_OLD, "        return max((task.clients for task in self.schedule if task.clients > 1), default=0)\n", "O2.7"),
+    [V("h2 keep (C02-b1): None padding in a helper method", "keep", _D, _PAD_OLD, "            self._fill_idle_clients(allocations, start_client_index)\n"),
+     V("", "keep", _D, _JP_HEAD, _PAD_HELPER + _JP_HEAD)],
+    [V("h2 break: padding helper wraps one row early", "break", _D, _PAD_OLD, "            self._fill_idle_clients(allocations, start_client_index)\n", "O2.2"),
+     V("", "break", _D, _JP_HEAD, _PAD_HELPER.replace("allocated_slots % max_clients", "allocated_slots % (max_clients - 1)") + _JP_HEAD)],
+    V("h2 keep: completing clients recorded behind an early continue-free if/else", "keep", _D,
+      "                    if sub_task.completes_parent:\n                        clients_executing_completing_task.append(physical_client_index)\n                    elif sub_task.any_completes_parent:\n                        any_task_completes_parent.append(physical_client_index)\n",
+      "                    if sub_task.completes_parent:\n                        clients_executing_completing_task.append(client_index % max_clients)\n                    else:\n                        if sub_task.any_completes_parent:\n                            any_task_completes_parent.append(physical_client_index)\n"),
+    V("h2 break: any-completing clients recorded for every sub-task", "break", _D,
+      "                    elif sub_task.any_completes_parent:\n                        any_task_completes_parent.append(physical_client_index)\n",
+      "                    else:\n                        any_task_completes_parent.append(physical_client_index)\n", "O2.7"),
+    V("h2 keep: Parallel.clients with a guard clause and sum()", "keep", _T, _PAR_OLD, "        if self._clients is not None:\n            return self._clients\n        return sum(task.clients for task in self.tasks)\n"),
+    V("h2 break: Parallel.clients ignores an explicit count of 0", "break", _T, _PAR_OLD, "        if self._clients:\n            return self._clients\n        return sum(task.clients for task in self.tasks)\n", "O2.6"),
+    V("h2 keep: worker id handed over by keyword, extra counter in start_benchmark", "keep", _D,
+      "                    worker = self.driver_actor.create_client(host, self.config, worker_id)\n",
+      "                    started = 0\n                    started += 1\n                    worker = self.driver_actor.create_client(host, self.config, worker_id=worker_id)\n"),
 ]
